@@ -122,220 +122,6 @@ Proof.
   apply forallb_forall. intros i Hi. apply (H i). apply inline_ins_in. left; exact Hi.
 Qed.
 
-Lemma run_edge_trace cmd g st e : h_trace (run_edge cmd g st e) = e :: h_trace st.
-Proof.
-  unfold run_edge, finish_run. cbn [record h_trace].
-  destruct (write_outs_spec (ei_restat (g_edge g e)) (cmd e (h_hash st e) (reads g st e))
-              (ei_outs (g_edge g e)) (tick st)) as [_ [_ [_ [Tr _]]]].
-  cbn zeta in Tr. rewrite Tr. reflexivity.
-Qed.
-
-Section PartA.
-Variable cmd : edge -> N -> snapshot -> node -> content.
-Variable g : graph.
-Variable hid : edge -> list node.
-Hypothesis Hwf : wf_spec g.
-Hypothesis Hwg : wf_graph g.
-Hypothesis Hfrag : frag_ABD g hid = true.
-Hypothesis Htopo : topo_ordered (inline g hid) = true.
-
-Notation gi := (inline g hid).
-Notation outs e := (ei_outs (g_edge g e)).
-Notation phony e := (ei_phony (g_edge g e)).
-
-Let HfD : frag_D g = true := frag_ABD_D g hid Hfrag.
-Let Hwfi : wf_spec gi := wf_spec_inline g hid Hwf.
-
-Lemma o_prod_d e o : In o (outs e) -> g_producer g o = Some e.
-Proof. apply (proj1 Hwf). Qed.
-
-(* one command of the deps variant is one command of the inlined variant *)
-Lemma drun_edge_h ds e : (e < g_nedges g)%nat ->
-  d_h (drun_edge cmd g hid ds e) = run_edge cmd gi (d_h ds) e.
-Proof.
-  intros He. unfold drun_edge, run_edge. cbn [d_h]. unfold dreads, reads.
-  rewrite (nonoo_inline g hid e Hfrag He). reflexivity.
-Qed.
-
-Lemma drun_edge_deps ds e :
-  d_deps (drun_edge cmd g hid ds e) =
-  record_deps g hid (d_h (drun_edge cmd g hid ds e)) e (d_deps ds).
-Proof. reflexivity. Qed.
-
-Definition GoodD (ds : dstate) : Prop := Good cmd gi (d_h ds) /\ DepsOk g hid ds.
-
-Lemma goodd_init : GoodD (init_dstate g).
-Proof.
-  split; [apply (good_init cmd gi)|]. split.
-  - intros o dm l H. discriminate.
-  - intros e o _ _ H. exfalso. apply H. reflexivity.
-Qed.
-
-Lemma depsok_lift f ds :
-  DepsOk g hid ds ->
-  h_blog (f (d_h ds)) = h_blog (d_h ds) ->
-  (forall e o, ei_deps (g_edge g e) = DepsLog -> In o (outs e) ->
-               mtime_of (f (d_h ds)) o <= mtime_of (d_h ds) o) ->
-  DepsOk g hid (dlift f ds).
-Proof.
-  intros [A B] Hb Hm. split; [exact A|].
-  intros e o Hd Ho Hbl. cbn [dlift d_h d_deps] in *. rewrite Hb in Hbl.
-  destruct (B e o Hd Ho Hbl) as [dm [Hr Hle]]. exists dm. split; [exact Hr|].
-  specialize (Hm e o Hd Ho). lia.
-Qed.
-
-Lemma goodd_edit ds n c : GoodD ds -> is_source g n = true ->
-  GoodD (dlift (fun st => write_file st n c) ds).
-Proof.
-  intros [HG HD] Hs. split.
-  - cbn [dlift d_h]. split; [apply (stateok_edit gi); [exact (proj1 HG)|exact Hs]|].
-    apply (logsound_edit cmd gi Hwfi); assumption.
-  - apply depsok_lift; [exact HD|reflexivity|].
-    intros e o _ Ho. unfold mtime_of. cbn [write_file h_disk]. unfold upd.
-    destruct (Nat.eqb_spec o n) as [->|_]; [|lia].
-    unfold is_source in Hs. rewrite (o_prod_d e n Ho) in Hs. discriminate.
-Qed.
-
-Lemma goodd_delete ds n : GoodD ds -> GoodD (dlift (fun st => delete_file st n) ds).
-Proof.
-  intros [HG HD]. split.
-  - cbn [dlift d_h]. split; [apply (stateok_delete gi); exact (proj1 HG)|apply (logsound_delete cmd gi); exact HG].
-  - apply depsok_lift; [exact HD|reflexivity|].
-    intros e o _ _. unfold mtime_of. cbn [delete_file h_disk]. unfold upd.
-    destruct (Nat.eqb o n); [|lia].
-    destruct (h_disk (d_h ds) o) as [[m c]|] eqn:Hd; [|lia].
-    destruct HG as [[_ [B _]] _]. specialize (B o m c Hd). lia.
-Qed.
-
-Lemma goodd_setcmd ds e h : GoodD ds -> GoodD (dlift (fun st => set_cmd st e h) ds).
-Proof.
-  intros [HG HD]. split; [exact HG|].
-  apply depsok_lift; [exact HD|reflexivity|]. intros e' o _ _. unfold mtime_of. cbn [set_cmd h_disk]. lia.
-Qed.
-
-(* what one command does to the state of the deps variant *)
-Lemma drun_edge_spec ds e : GoodD ds -> (e < g_nedges g)%nat -> phony e = false ->
-  let ds' := drun_edge cmd g hid ds e in
-  GoodD ds' /\
-  h_hash (d_h ds') = h_hash (d_h ds) /\
-  h_trace (d_h ds') = e :: h_trace (d_h ds) /\
-  (forall n, ~ In n (outs e) ->
-     h_disk (d_h ds') n = h_disk (d_h ds) n /\ h_blog (d_h ds') n = h_blog (d_h ds) n /\
-     h_ghost (d_h ds') n = h_ghost (d_h ds) n /\ d_deps ds' n = d_deps ds n) /\
-  (forall o, In o (outs e) -> h_blog (d_h ds') o <> None /\ h_disk (d_h ds') o <> None).
-Proof.
-  intros [HG HD] He Hph. cbn zeta.
-  pose proof (drun_edge_h ds e He) as Eh.
-  destruct HG as [[A [B [C [D E]]]] L].
-  destruct (run_edge_spec cmd gi (d_h ds) e A B) as [Hh [Hc [Hout [Hfs [Hd [[m [Hm Hlog]] _]]]]]]. cbn zeta in *.
-  rewrite <- Eh in *. set (ds' := drun_edge cmd g hid ds e) in *.
-  assert (HG' : Good cmd gi (d_h ds')).
-  { rewrite Eh. apply (good_run cmd gi Hwfi Htopo); [split; [split; [exact A|split; [exact B|split; [exact C|split; [exact D|exact E]]]]|exact L]|exact He|exact Hph]. }
-  assert (Hrec : forall n, ~ In n (outs e) -> d_deps ds' n = d_deps ds n).
-  { intros n Hn. unfold ds'. rewrite drun_edge_deps. unfold record_deps.
-    destruct (is_deps_log (ei_deps (g_edge g e))); [|reflexivity]. rewrite (mem_node_false n _ Hn). reflexivity. }
-  split; [split; [exact HG'|]|].
-  - destruct HD as [D1 D2]. split.
-    + intros o dm l Hr. destruct (in_dec Nat.eq_dec o (outs e)) as [Hin|Hnin].
-      * unfold ds' in Hr. rewrite drun_edge_deps in Hr. unfold record_deps in Hr.
-        destruct (ei_deps (g_edge g e)) eqn:Hdk; cbn [is_deps_log] in Hr;
-          [apply (D1 o dm l Hr)|apply (D1 o dm l Hr)|].
-        rewrite (proj2 (mem_node_In o _) Hin) in Hr. inversion Hr; subst dm l. split.
-        -- unfold mtime_of. destruct (h_disk _ o) as [[mo c]|] eqn:Hdo; [|lia]. fold ds' in Hdo. specialize (Hd o mo c Hdo). lia.
-        -- exists e. split; [exact Hin|]. split; [exact Hdk|reflexivity].
-      * rewrite (Hrec o Hnin) in Hr. apply (D1 o dm l Hr).
-    + intros e' o Hdk Ho Hbl. destruct (in_dec Nat.eq_dec o (outs e)) as [Hin|Hnin].
-      * assert (e' = e) by (pose proof (o_prod_d e' o Ho) as H1; rewrite (o_prod_d e o Hin) in H1; congruence). subst e'.
-        exists (mtime_of (d_h ds') o). split; [|lia].
-        unfold ds' at 1. rewrite drun_edge_deps. unfold record_deps. rewrite Hdk. cbn [is_deps_log].
-        rewrite (proj2 (mem_node_In o _) Hin). reflexivity.
-      * destruct (Hout o Hnin) as [E1 [E2 _]]. rewrite E2 in Hbl.
-        destruct (D2 e' o Hdk Ho Hbl) as [dm [Hr Hle]]. exists dm. rewrite (Hrec o Hnin). split; [exact Hr|].
-        unfold mtime_of in *. rewrite E1. exact Hle.
-  - split; [exact Hh|]. split; [rewrite Eh; apply run_edge_trace|]. split.
-    + intros n Hn. destruct (Hout n Hn) as [E1 [E2 E3]]. repeat split; [exact E1|exact E2|exact E3|apply Hrec; exact Hn].
-    + intros o Ho. destruct (Hlog o Ho) as [Hb [_ [mo Hdo]]]. rewrite Hb, Hdo. split; discriminate.
-Qed.
-
-(* ---- one invocation: the loop invariant *)
-Section BuildD.
-Variables (ds0 : dstate) (s0 : sstate) (p0 : plan).
-Hypothesis HG0 : GoodD ds0.
-
-Notation dstk k := (dbuild_upto cmd g hid s0 p0 k ds0).
-
-Lemma dbuild_upto_S k : dstk (S k) = dbuild_step cmd g hid s0 p0 (dstk k) k.
-Proof. unfold dbuild_upto. rewrite seq_S, fold_left_app. reflexivity. Qed.
-
-Lemma dstep_cases k :
-  (dstk (S k) = drun_edge cmd g hid (dstk k) k /\ want_start p0 k = true /\ phony k = false /\
-   dirty_now_d g s0 (dstk k) k = true) \/
-  (dstk (S k) = dstk k /\
-   (phony k = true \/ want_start p0 k = false \/ dirty_now_d g s0 (dstk k) k = false)).
-Proof.
-  rewrite dbuild_upto_S. unfold dbuild_step.
-  destruct (want_start p0 k); [|right; split; [reflexivity|right; left; reflexivity]].
-  destruct (phony k); [right; split; [reflexivity|left; reflexivity]|].
-  destruct (dirty_now_d g s0 (dstk k) k); [left; repeat split; reflexivity|].
-  right; split; [reflexivity|right; right; reflexivity].
-Qed.
-
-(* only outputs of wanted real statements below [k] have changed *)
-Definition FrameD (k : nat) (ds : dstate) : Prop :=
-  forall n, (h_disk (d_h ds) n = h_disk (d_h ds0) n /\ h_blog (d_h ds) n = h_blog (d_h ds0) n /\
-             h_ghost (d_h ds) n = h_ghost (d_h ds0) n /\ d_deps ds n = d_deps ds0 n) \/
-            (exists e, g_producer g n = Some e /\ (e < k)%nat /\ want_start p0 e = true /\ phony e = false).
-
-Lemma dbuild_inv1 k : (k <= g_nedges g)%nat ->
-  GoodD (dstk k) /\ h_hash (d_h (dstk k)) = h_hash (d_h ds0) /\ FrameD k (dstk k) /\
-  h_clock (d_h ds0) <= h_clock (d_h (dstk k)).
-Proof.
-  induction k as [|k IH]; intros Hk.
-  - split; [exact HG0|]. split; [reflexivity|]. split; [|cbn; lia]. intros n. left. repeat split; reflexivity.
-  - destruct IH as [HGk [Hh [Hf Hcl]]]; [lia|].
-    destruct (dstep_cases k) as [[Hs [Hw [Hph _]]]|[Hs _]]; rewrite Hs.
-    + destruct (drun_edge_spec (dstk k) k HGk ltac:(lia) Hph) as [HG' [Hh' [_ [Hout _]]]]. cbn zeta in *.
-      split; [exact HG'|]. split; [congruence|]. split.
-      * intros n. destruct (in_dec Nat.eq_dec n (outs k)) as [Hin|Hnin].
-        -- right. exists k. split; [apply o_prod_d; exact Hin|]. split; [lia|]. split; assumption.
-        -- destruct (Hout n Hnin) as [E1 [E2 [E3 E4]]]. rewrite E1, E2, E3, E4.
-           destruct (Hf n) as [Hsm|[e [He [Hlt Hr]]]]; [left; exact Hsm|].
-           right. exists e. split; [exact He|]. split; [lia|exact Hr].
-      * rewrite (drun_edge_h (dstk k) k ltac:(lia)).
-        destruct (proj1 HGk) as [[A [B _]] _].
-        destruct (run_edge_spec cmd gi (d_h (dstk k)) k A B) as [_ [Hc _]]. cbn zeta in Hc. lia.
-    + split; [exact HGk|]. split; [exact Hh|]. split; [|exact Hcl].
-      intros n. destruct (Hf n) as [Hsm|[e [He [Hlt Hr]]]]; [left; exact Hsm|].
-      right. exists e. split; [exact He|]. split; [lia|exact Hr].
-Qed.
-
-End BuildD.
-
-Lemma goodd_build ds T ds' : GoodD ds -> dbuild cmd g hid ds T = Some ds' -> GoodD ds'.
-Proof.
-  intros HG H. unfold dbuild in H. destruct (dscan g ds T) as [c|m d|e| |s p]; try discriminate.
-  inversion H; subst ds'. apply (dbuild_inv1 ds s p HG (g_nedges g) (le_n _)).
-Qed.
-
-Theorem goodd_step ds x : GoodD ds -> step_ok g x = true -> GoodD (dapply_step cmd g hid ds x).
-Proof.
-  intros HG Hok. destruct x as [n c|n|e h|T]; cbn [dapply_step step_ok] in *.
-  - apply goodd_edit; assumption.
-  - apply goodd_delete; exact HG.
-  - apply goodd_setcmd; exact HG.
-  - destruct (dbuild cmd g hid ds T) as [ds'|] eqn:Hb; [|exact HG]. apply (goodd_build ds T ds' HG Hb).
-Qed.
-
-Theorem goodd_hist : forall h ds, GoodD ds -> hist_ok g h = true -> GoodD (drun_hist cmd g hid ds h).
-Proof.
-  induction h as [|x h IH]; intros ds HG Hok; [exact HG|].
-  cbn [hist_ok forallb] in Hok. apply andb_true_iff in Hok. destruct Hok as [Hx Hh].
-  change (drun_hist cmd g hid ds (x :: h)) with (drun_hist cmd g hid (dapply_step cmd g hid ds x) h).
-  apply IH; [apply goodd_step; assumption|exact Hh].
-Qed.
-
-End PartA.
-
 (* ================================================================== Part SD: scan and plan with a deps log *)
 (* The facts HistProofs' Part S proves for fragment AB, for manifests whose statements may have
    [deps = gcc]: [RD] is [RI] with the inputs the scan left in the edge ([es_ins]) plus what the scan
@@ -451,7 +237,7 @@ Definition RDat (s : sstate) (e : edge) : Prop :=
    (exists i e', In i (ins_of s e) /\ g_producer g i = Some e' /\ ready s e' = false)) /\
   ((ins_of s e = eins e /\ (missing s e = true \/ own_dirty g w e)) \/
    (exists l, spec_load g w e = LdOk l /\ ins_of s e = splice (eins e) (noo e) l /\ missing s e = false)) /\
-  (spec_load g w e = LdFail -> missing s e = true).
+  (spec_load g w e = LdFail <-> missing s e = true).
 
 Definition RD (s : sstate) : Prop := forall e, mark_of s e = VisitDone -> RDat s e.
 
@@ -704,7 +490,7 @@ Proof.
   assert (Close : forall sX, lstep g e s5 sX -> mark_of sX e = VisitInStack -> ins_of sX e = eins e ->
             ready sX e = ready s5 e ->
             (missing sX e = true \/ own_dirty g w e) ->
-            (spec_load g w e = LdFail -> missing sX e = true) ->
+            (spec_load g w e = LdFail <-> missing sX e = true) ->
             RD (finish_edge g sX e true)).
   { intros sX LSX MX IX RX HD5 HD6.
     assert (LS3X : lstep g e s3 sX) by (apply (lstep_trans g e s3 s5 sX LS35 LSX)).
@@ -747,23 +533,24 @@ Proof.
         * rewrite I3 in Hi. exists i, ie. split; [exact Hi|]. split; [exact Hpi|].
           rewrite (proj2 (Keep i (F3 i Hi)) ie Hpi). exact Hri.
     - left. split; [reflexivity|]. unfold s9. rewrite finish_edge_missing. exact HD5.
-    - intros Hl. unfold s9. rewrite finish_edge_missing. apply HD6. exact Hl. }
-  assert (CloseM : RD (finish_edge g (set_deps_missing s5 e true) e true)).
-  { pose proof (local_set_deps_missing e s5 true) as Lm.
+    - unfold s9. rewrite finish_edge_missing. exact HD6. }
+  assert (CloseM : spec_load g w e = LdFail -> RD (finish_edge g (set_deps_missing s5 e true) e true)).
+  { intros Hfail. pose proof (local_set_deps_missing e s5 true) as Lm.
     apply Close.
     - apply lstep_of_local; [exact Lm|reflexivity].
     - rewrite (proj1 (proj2 Lm)). exact M5.
     - rewrite (proj2 (proj2 Lm)). exact I5.
     - unfold set_deps_missing. rewrite upd_edge_same. reflexivity.
     - left. unfold set_deps_missing. rewrite upd_edge_same. reflexivity.
-    - intros _. unfold set_deps_missing. rewrite upd_edge_same. reflexivity. }
+    - split; [intros _; unfold set_deps_missing; rewrite upd_edge_same; reflexivity|intros _; exact Hfail]. }
   destruct Hbr as [[Hd1 [_ [b [Hb Hs']]]]|[[Hd1 [Hl [_ Hs']]]|[Hd1 [l [s7 [s8 [mri2 [dirty2 [Hl [V2 [He2 Hs']]]]]]]]]]];
     subst s'.
   - (* dirty before the deps are looked at: the record is only probed *)
-    destruct b; [exact CloseM|].
+    destruct b.
+    { apply CloseM. rewrite Htry in Hb. destruct (spec_load g w e); [reflexivity|discriminate|discriminate]. }
     apply Close; [apply lstep_refl|exact M5|exact I5|reflexivity|right; apply Hown; exact Hd1|].
-    intros Hf. rewrite Htry, Hf in Hb. discriminate.
-  - exact CloseM.
+    split; [intros Hf; rewrite Htry, Hf in Hb; discriminate|intros Hmx; rewrite Mi5 in Hmx; discriminate].
+  - apply CloseM. rewrite <- Hload. exact Hl.
   - (* the record is loaded: spliced, visited, re-checked *)
     rewrite Hload in Hl.
     destruct (splice_deps_props g e s5 l) as [A6 [Mk6 Ik6]].
@@ -854,7 +641,8 @@ Proof.
            rewrite (proj2 (Keep7 i (F7 i Hi)) ie Hpi). exact Hri.
     + right. exists l. split; [exact Hl|]. split; [reflexivity|].
       unfold s9. rewrite finish_edge_missing, (eval_inputs_missing e _ _ _ _ _ _ _ _ He2), E67, (proj2 R6). exact Mi5.
-    + intros Hf. rewrite Hf in Hl. discriminate.
+    + unfold s9. rewrite finish_edge_missing, (eval_inputs_missing e _ _ _ _ _ _ _ _ He2), E67, (proj2 R6), Mi5.
+      split; [intros Hf; rewrite Hf in Hl; discriminate|discriminate].
 Qed.
 
 (* no validations: the list of validation nodes stays as it is *)
@@ -1233,7 +1021,183 @@ Proof.
   apply existsb_exists. exists o. split; [exact Ho|]. apply Hok. exact Hmd.
 Qed.
 
-Section PartB.
+
+(* ================================================================== Part C: what is dirty at the scan is still dirty at its turn *)
+(* ---- the restat-free cone *)
+Lemma taint_length g hid k : length (taint g hid k) = k.
+Proof. induction k as [|k IH]; [reflexivity|]. cbn [taint]. rewrite app_length, IH. cbn [length]. lia. Qed.
+
+Lemma taint_prefix g hid k k' u : (u < k)%nat -> (k <= k')%nat ->
+  nth u (taint g hid k') false = nth u (taint g hid k) false.
+Proof.
+  intros Hu Hk. induction Hk as [|k' Hk IH]; [reflexivity|].
+  cbn [taint]. rewrite app_nth1 by (rewrite taint_length; lia). exact IH.
+Qed.
+
+Lemma existsb_ext_in' {A : Type} (f f' : A -> bool) : forall l,
+  (forall a, In a l -> f a = f' a) -> existsb f l = existsb f' l.
+Proof.
+  induction l as [|a l IH]; intros H; [reflexivity|]. cbn [existsb].
+  rewrite (H a (or_introl eq_refl)), IH; [reflexivity|]. intros b Hb. apply H. right; exact Hb.
+Qed.
+
+Lemma tainted_spec g hid u :
+  topo_ordered (inline g hid) = true -> frag_ABD g hid = true -> (u < g_nedges g)%nat ->
+  tainted g hid u = (ei_restat (g_edge g u) || reads_tainted g hid u)%bool.
+Proof.
+  intros Ht Hf Hu. unfold tainted.
+  rewrite (taint_prefix g hid (S u) (g_nedges g) u) by lia.
+  cbn [taint]. rewrite app_nth2 by (rewrite taint_length; lia).
+  rewrite taint_length, Nat.sub_diag. cbn [nth]. f_equal.
+  unfold reads_tainted. apply existsb_ext_in'.
+  intros i Hi. destruct (g_producer g i) as [u'|] eqn:Hp; [|reflexivity].
+  unfold tainted. symmetry. apply taint_prefix; [|lia].
+  pose proof (edges_all_spec (inline g hid) _ u Ht) as H. cbn beta in H.
+  specialize (H ltac:(cbn [inline g_nedges]; exact Hu)). rewrite forallb_forall in H.
+  assert (Hin : In i (ei_ins (g_edge (inline g hid) u))).
+  { rewrite <- (nonoo_inline g hid u Hf Hu) in Hi. apply (nonoo_incl (inline g hid) u). exact Hi. }
+  specialize (H i Hin). cbn [inline g_producer] in H. rewrite Hp in H. apply Nat.ltb_lt. exact H.
+Qed.
+
+
+
+(* ---- "missing and no known rule" is only ever said about a node of the manifest *)
+Lemma ast_loop_missing (visit : node -> plan -> ast_res) : forall ins p err p',
+  ast_loop visit ins p = Some (false, Some err, p') ->
+  exists i q q', visit i q = Some (false, Some err, q').
+Proof.
+  induction ins as [|i ins IH]; intros p err p' H; cbn [ast_loop] in H; [discriminate|].
+  destruct (visit i p) as [[[b e0] q]|] eqn:Hv; [|discriminate].
+  destruct b.
+  - apply (IH q err p' H).
+  - destruct e0 as [er|].
+    + inversion H; subst. exists i, p, p'. exact Hv.
+    + apply (IH q err p' H).
+Qed.
+
+Lemma ast_missing g : forall f s dep n p m d p',
+  add_sub_target g f s dep n p = Some (false, Some (m, d), p') ->
+  g_byloader g m = false /\ g_producer g m = None /\ ns_dirty (st_node s m) = true.
+Proof.
+  induction f as [|f IH]; intros s dep n p m d p' H; [discriminate|]. cbn [add_sub_target] in H.
+  destruct (g_producer g n) as [e|] eqn:Hp.
+  - destruct (es_ready (st_edge s e)); [discriminate|].
+    destruct (negb match p_want p e with None => true | Some _ => false end); [discriminate|].
+    destruct (ast_loop_missing _ _ _ _ _ H) as [i [q [q' Hv]]]. apply (IH _ _ _ _ _ _ _ Hv).
+  - destruct (ns_dirty (st_node s n) && negb (g_byloader g n))%bool eqn:Hc; [|discriminate].
+    inversion H; subst m d p'. apply andb_true_iff in Hc. destruct Hc as [Hd Hb]. apply negb_true_iff in Hb.
+    split; [exact Hb|]. split; [exact Hp|exact Hd].
+Qed.
+
+Lemma scan_missing_byloader g w : forall T s p m d,
+  add_targets g w s p T = ScanMissing m d -> g_byloader g m = false.
+Proof.
+  induction T as [|t T IH]; intros s p m d H; cbn [add_targets] in H; [discriminate|].
+  destruct (builder_add_target g w s p t) as [c|m0 d0|e| |s1 p1] eqn:Hb; try discriminate.
+  2:{ apply (IH s1 p1 m d H). }
+  inversion H; subst m0 d0. clear H. unfold builder_add_target in Hb.
+  destruct (recompute_dirty g w s t) as [[s1 vn]|c|e|]; try discriminate.
+  assert (Havt : forall vnodes p0, add_validation_targets g s1 vnodes p0 = ScanMissing m d -> g_byloader g m = false).
+  { induction vnodes as [|v vnodes IHv]; intros p0 H; cbn [add_validation_targets] in H; [discriminate|].
+    destruct (g_producer g v) as [ve|]; [|apply (IHv p0 H)].
+    destruct (es_ready (st_edge s1 ve)); [apply (IHv p0 H)|].
+    unfold plan_add_target in H.
+    destruct (add_sub_target g (plan_fuel g) s1 None v p0) as [[[b err] p']|] eqn:Ha; [|discriminate].
+    destruct b; [apply (IHv p' H)|]. destruct err as [[m1 d1]|]; [|discriminate].
+    inversion H; subst m1 d1. apply (ast_missing g _ _ _ _ _ _ _ _ Ha). }
+  destruct (match g_producer g t with Some e => negb (es_ready (st_edge s1 e)) | None => true end).
+  - unfold plan_add_target in Hb.
+    destruct (add_sub_target g (plan_fuel g) s1 None t p) as [[[b err] p']|] eqn:Ha; [|discriminate].
+    destruct b; [apply (Havt vn p' Hb)|]. destruct err as [[m1 d1]|]; [|discriminate].
+    inversion Hb; subst m1 d1. apply (ast_missing g _ _ _ _ _ _ _ _ Ha).
+  - apply (Havt vn p Hb).
+Qed.
+
+(* ---- comparing the declarative dirty state of two manifests over the same nodes *)
+Lemma newer_ext (g1 g2 : graph) (w1 w2 : world) :
+  (forall n, w_mtime w2 n = w_mtime w1 n) -> (forall n, g_producer g2 n = g_producer g1 n) ->
+  (forall n e, g_producer g1 n = Some e -> ei_phony (g_edge g1 e) = true ->
+               ei_phony (g_edge g2 e) = true /\ incl (nonoo_ins g1 e) (nonoo_ins g2 e)) ->
+  forall x i, newer_than g1 w1 x i -> newer_than g2 w2 x i.
+Proof.
+  intros Hm Hp Hph x i H. induction H as [i Hnz Hlt|i Hz Hlt|i e j Hz Hpi Hphe Hj Hn IH].
+  - apply nt_file; rewrite Hm; assumption.
+  - apply nt_missing; [rewrite Hm|]; assumption.
+  - destruct (Hph i e Hpi Hphe) as [Hph2 Hinc].
+    apply (nt_phony g2 w2 x i e j); [rewrite Hm; exact Hz|rewrite Hp; exact Hpi|exact Hph2|apply Hinc; exact Hj|exact IH].
+Qed.
+
+Definition same_static (g1 g2 : graph) : Prop :=
+  forall e, ei_phony (g_edge g2 e) = ei_phony (g_edge g1 e) /\
+            ei_restat (g_edge g2 e) = ei_restat (g_edge g1 e) /\
+            ei_generator (g_edge g2 e) = ei_generator (g_edge g1 e) /\
+            ei_hash (g_edge g2 e) = ei_hash (g_edge g1 e) /\
+            ei_outs (g_edge g2 e) = ei_outs (g_edge g1 e) /\
+            ei_vals (g_edge g2 e) = ei_vals (g_edge g1 e).
+
+Lemma md_transfer (g1 g2 : graph) (w1 w2 : world) :
+  (forall n, w_mtime w2 n = w_mtime w1 n) -> (forall n, w_blog w2 n = w_blog w1 n) ->
+  (forall n, g_producer g2 n = g_producer g1 n) -> same_static g1 g2 ->
+  (forall x i, newer_than g1 w1 x i -> newer_than g2 w2 x i) ->
+  (forall n e, g_producer g1 n = Some e ->
+     (forall n', g_producer g1 n' = Some e -> must_dirty g2 w2 n') \/
+     (incl (spec_ins g1 w1 e) (spec_ins g2 w2 e) /\ spec_load g1 w1 e <> LdFail /\
+      (ei_phony (g_edge g1 e) = true -> ei_ins (g_edge g1 e) = [] -> ei_ins (g_edge g2 e) = []))) ->
+  forall n, must_dirty g1 w1 n -> must_dirty g2 w2 n.
+Proof.
+  intros Hm Hb Hp Hst HN Hc n H.
+  induction H as [n Hpn Hz|n e i Hpn Hi Hd IH|n e o Hpn Hph Hin Hv Ho Hz|n e o Hpn Hph Ho Hr|n e Hpn Hl].
+  - apply md_leaf; [rewrite Hp; exact Hpn|rewrite Hm; exact Hz].
+  - destruct (Hc n e Hpn) as [Hall|[Hinc _]]; [apply Hall; exact Hpn|].
+    apply (md_input g2 w2 n e i); [rewrite Hp; exact Hpn|apply Hinc; exact Hi|exact IH].
+  - destruct (Hc n e Hpn) as [Hall|[_ [_ Hnil]]]; [apply Hall; exact Hpn|].
+    destruct (Hst e) as [E1 [_ [_ [_ [E5 E6]]]]].
+    apply (md_phony g2 w2 n e o); [rewrite Hp; exact Hpn|rewrite E1; exact Hph|apply Hnil; assumption|rewrite E6; exact Hv|rewrite E5; exact Ho|rewrite Hm; exact Hz].
+  - destruct (Hc n e Hpn) as [Hall|[Hinc _]]; [apply Hall; exact Hpn|].
+    destruct (Hst e) as [E1 [E2 [E3 [E4 [E5 _]]]]].
+    apply (md_self g2 w2 n e o); [rewrite Hp; exact Hpn|rewrite E1; exact Hph|rewrite E5; exact Ho|].
+    assert (HNN : forall x, (exists i, In i (spec_ins g1 w1 e) /\ newer_than g1 w1 x i) ->
+                            exists i, In i (spec_ins g2 w2 e) /\ newer_than g2 w2 x i).
+    { intros x [i [Hi Hn]]. exists i. split; [apply Hinc; exact Hi|apply HN; exact Hn]. }
+    unfold out_reason, base_reason, time_reason, used_restat in *. rewrite Hm, Hb, E2, E3, E4.
+    destruct Hr as [Hbase|[[Hu Hn]|Ht]]; [left; exact Hbase|right; left; split; [exact Hu|apply HNN; exact Hn]|].
+    right; right. destruct (w_blog w1 o) as [[h m]|]; [apply HNN; exact Ht|exact Ht].
+  - destruct (Hc n e Hpn) as [Hall|[_ [Hnf _]]]; [apply Hall; exact Hpn|contradiction].
+Qed.
+
+Lemma existsb_false {A : Type} (f : A -> bool) l : (forall a, In a l -> f a = false) -> existsb f l = false.
+Proof.
+  induction l as [|a l IH]; intros H; [reflexivity|]. cbn [existsb].
+  rewrite (H a (or_introl eq_refl)), IH; [reflexivity|]. intros b Hb. apply H. right; exact Hb.
+Qed.
+
+(* when nothing the statement needs must be remade, HistDefs' test says clean *)
+Lemma dirty_now_false g' X k :
+  wf_spec g' -> wf_graph g' -> frag_AB g' = true -> topo_ordered g' = true ->
+  (forall e, neededE (graph_of g' X) (ei_outs (g_edge g' k)) e ->
+             forall o, In o (ei_outs (g_edge g' e)) -> ~ must_dirty (graph_of g' X) (world_of X) o) ->
+  dirty_now g' X k = false.
+Proof.
+  intros Hwf' Hwg' Hfr Htp Hclean. unfold dirty_now.
+  destruct (scan_accepts (graph_of g' X) (world_of X) Hwf' Hwg' Hfr (ei_outs (g_edge g' k)) Htp) as [s [p Hs]].
+  - intros t Ht Hpt. exfalso. cbn [graph_of g_producer] in Hpt. rewrite (proj1 Hwf' k t Ht) in Hpt. discriminate.
+  - exact Hclean.
+  - rewrite Hs. apply existsb_false. intros o Ho.
+    destruct (ns_dirty (st_node s o)) eqn:Hd; [|reflexivity]. exfalso.
+    assert (Hr : reach (graph_of g' X) (ei_outs (g_edge g' k)) o) by (apply reach_target; exact Ho).
+    pose proof (scan_reach_ok (graph_of g' X) (world_of X) Hwf' Hwg' Hfr _ s p Hs o Hr) as [Hok _].
+    apply (Hclean k (ex_intro _ o (conj Hr (proj1 Hwf' k o Ho))) o Ho). apply Hok. exact Hd.
+Qed.
+
+Lemma run_edge_trace cmd g st e : h_trace (run_edge cmd g st e) = e :: h_trace st.
+Proof.
+  unfold run_edge, finish_run. cbn [record h_trace].
+  destruct (write_outs_spec (ei_restat (g_edge g e)) (cmd e (h_hash st e) (reads g st e))
+              (ei_outs (g_edge g e)) (tick st)) as [_ [_ [_ [Tr _]]]].
+  cbn zeta in Tr. rewrite Tr. reflexivity.
+Qed.
+
+Section PartA.
 Variable cmd : edge -> N -> snapshot -> node -> content.
 Variable g : graph.
 Variable hid : edge -> list node.
@@ -1245,10 +1209,203 @@ Hypothesis Htopo : topo_ordered (inline g hid) = true.
 Notation gi := (inline g hid).
 Notation outs e := (ei_outs (g_edge g e)).
 Notation phony e := (ei_phony (g_edge g e)).
-Notation Gd ds := (graph_of g (d_h ds)).
-Notation Wd ds := (world_of_d ds).
 
 Let HfD : frag_D g = true := frag_ABD_D g hid Hfrag.
+Let Hwfi : wf_spec gi := wf_spec_inline g hid Hwf.
+
+Lemma o_prod_d e o : In o (outs e) -> g_producer g o = Some e.
+Proof. apply (proj1 Hwf). Qed.
+
+(* one command of the deps variant is one command of the inlined variant *)
+Lemma drun_edge_h ds e : (e < g_nedges g)%nat ->
+  d_h (drun_edge cmd g hid ds e) = run_edge cmd gi (d_h ds) e.
+Proof.
+  intros He. unfold drun_edge, run_edge. cbn [d_h]. unfold dreads, reads.
+  rewrite (nonoo_inline g hid e Hfrag He). reflexivity.
+Qed.
+
+Lemma drun_edge_deps ds e :
+  d_deps (drun_edge cmd g hid ds e) =
+  record_deps g hid (d_h (drun_edge cmd g hid ds e)) e (d_deps ds).
+Proof. reflexivity. Qed.
+
+Definition GoodD (ds : dstate) : Prop := Good cmd gi (d_h ds) /\ DepsOk g hid ds.
+
+Lemma goodd_init : GoodD (init_dstate g).
+Proof.
+  split; [apply (good_init cmd gi)|]. split.
+  - intros o dm l H. discriminate.
+  - intros e o _ _ H. exfalso. apply H. reflexivity.
+Qed.
+
+Lemma depsok_lift f ds :
+  DepsOk g hid ds ->
+  h_blog (f (d_h ds)) = h_blog (d_h ds) ->
+  (forall e o, ei_deps (g_edge g e) = DepsLog -> In o (outs e) ->
+               mtime_of (f (d_h ds)) o <= mtime_of (d_h ds) o) ->
+  DepsOk g hid (dlift f ds).
+Proof.
+  intros [A B] Hb Hm. split; [exact A|].
+  intros e o Hd Ho Hbl. cbn [dlift d_h d_deps] in *. rewrite Hb in Hbl.
+  destruct (B e o Hd Ho Hbl) as [dm [Hr Hle]]. exists dm. split; [exact Hr|].
+  specialize (Hm e o Hd Ho). lia.
+Qed.
+
+Lemma goodd_edit ds n c : GoodD ds -> is_source g n = true ->
+  GoodD (dlift (fun st => write_file st n c) ds).
+Proof.
+  intros [HG HD] Hs. split.
+  - cbn [dlift d_h]. split; [apply (stateok_edit gi); [exact (proj1 HG)|exact Hs]|].
+    apply (logsound_edit cmd gi Hwfi); assumption.
+  - apply depsok_lift; [exact HD|reflexivity|].
+    intros e o _ Ho. unfold mtime_of. cbn [write_file h_disk]. unfold upd.
+    destruct (Nat.eqb_spec o n) as [->|_]; [|lia].
+    unfold is_source in Hs. rewrite (o_prod_d e n Ho) in Hs. discriminate.
+Qed.
+
+Lemma goodd_delete ds n : GoodD ds -> GoodD (dlift (fun st => delete_file st n) ds).
+Proof.
+  intros [HG HD]. split.
+  - cbn [dlift d_h]. split; [apply (stateok_delete gi); exact (proj1 HG)|apply (logsound_delete cmd gi); exact HG].
+  - apply depsok_lift; [exact HD|reflexivity|].
+    intros e o _ _. unfold mtime_of. cbn [delete_file h_disk]. unfold upd.
+    destruct (Nat.eqb o n); [|lia].
+    destruct (h_disk (d_h ds) o) as [[m c]|] eqn:Hd; [|lia].
+    destruct HG as [[_ [B _]] _]. specialize (B o m c Hd). lia.
+Qed.
+
+Lemma goodd_setcmd ds e h : GoodD ds -> GoodD (dlift (fun st => set_cmd st e h) ds).
+Proof.
+  intros [HG HD]. split; [exact HG|].
+  apply depsok_lift; [exact HD|reflexivity|]. intros e' o _ _. unfold mtime_of. cbn [set_cmd h_disk]. lia.
+Qed.
+
+(* what one command does to the state of the deps variant *)
+Lemma drun_edge_spec ds e : GoodD ds -> (e < g_nedges g)%nat -> phony e = false ->
+  let ds' := drun_edge cmd g hid ds e in
+  GoodD ds' /\
+  h_hash (d_h ds') = h_hash (d_h ds) /\
+  h_trace (d_h ds') = e :: h_trace (d_h ds) /\
+  (forall n, ~ In n (outs e) ->
+     h_disk (d_h ds') n = h_disk (d_h ds) n /\ h_blog (d_h ds') n = h_blog (d_h ds) n /\
+     h_ghost (d_h ds') n = h_ghost (d_h ds) n /\ d_deps ds' n = d_deps ds n) /\
+  (forall o, In o (outs e) -> h_blog (d_h ds') o <> None /\ h_disk (d_h ds') o <> None).
+Proof.
+  intros [HG HD] He Hph. cbn zeta.
+  pose proof (drun_edge_h ds e He) as Eh.
+  destruct HG as [[A [B [C [D E]]]] L].
+  destruct (run_edge_spec cmd gi (d_h ds) e A B) as [Hh [Hc [Hout [Hfs [Hd [[m [Hm Hlog]] _]]]]]]. cbn zeta in *.
+  rewrite <- Eh in *. set (ds' := drun_edge cmd g hid ds e) in *.
+  assert (HG' : Good cmd gi (d_h ds')).
+  { rewrite Eh. apply (good_run cmd gi Hwfi Htopo); [split; [split; [exact A|split; [exact B|split; [exact C|split; [exact D|exact E]]]]|exact L]|exact He|exact Hph]. }
+  assert (Hrec : forall n, ~ In n (outs e) -> d_deps ds' n = d_deps ds n).
+  { intros n Hn. unfold ds'. rewrite drun_edge_deps. unfold record_deps.
+    destruct (is_deps_log (ei_deps (g_edge g e))); [|reflexivity]. rewrite (mem_node_false n _ Hn). reflexivity. }
+  split; [split; [exact HG'|]|].
+  - destruct HD as [D1 D2]. split.
+    + intros o dm l Hr. destruct (in_dec Nat.eq_dec o (outs e)) as [Hin|Hnin].
+      * unfold ds' in Hr. rewrite drun_edge_deps in Hr. unfold record_deps in Hr.
+        destruct (ei_deps (g_edge g e)) eqn:Hdk; cbn [is_deps_log] in Hr;
+          [apply (D1 o dm l Hr)|apply (D1 o dm l Hr)|].
+        rewrite (proj2 (mem_node_In o _) Hin) in Hr. inversion Hr; subst dm l. split.
+        -- unfold mtime_of. destruct (h_disk _ o) as [[mo c]|] eqn:Hdo; [|lia]. fold ds' in Hdo. specialize (Hd o mo c Hdo). lia.
+        -- exists e. split; [exact Hin|]. split; [exact Hdk|reflexivity].
+      * rewrite (Hrec o Hnin) in Hr. apply (D1 o dm l Hr).
+    + intros e' o Hdk Ho Hbl. destruct (in_dec Nat.eq_dec o (outs e)) as [Hin|Hnin].
+      * assert (e' = e) by (pose proof (o_prod_d e' o Ho) as H1; rewrite (o_prod_d e o Hin) in H1; congruence). subst e'.
+        exists (mtime_of (d_h ds') o). split; [|lia].
+        unfold ds' at 1. rewrite drun_edge_deps. unfold record_deps. rewrite Hdk. cbn [is_deps_log].
+        rewrite (proj2 (mem_node_In o _) Hin). reflexivity.
+      * destruct (Hout o Hnin) as [E1 [E2 _]]. rewrite E2 in Hbl.
+        destruct (D2 e' o Hdk Ho Hbl) as [dm [Hr Hle]]. exists dm. rewrite (Hrec o Hnin). split; [exact Hr|].
+        unfold mtime_of in *. rewrite E1. exact Hle.
+  - split; [exact Hh|]. split; [rewrite Eh; apply run_edge_trace|]. split.
+    + intros n Hn. destruct (Hout n Hn) as [E1 [E2 E3]]. repeat split; [exact E1|exact E2|exact E3|apply Hrec; exact Hn].
+    + intros o Ho. destruct (Hlog o Ho) as [Hb [_ [mo Hdo]]]. rewrite Hb, Hdo. split; discriminate.
+Qed.
+
+(* ---- one invocation: the loop invariant *)
+Section BuildD.
+Variables (ds0 : dstate) (s0 : sstate) (p0 : plan).
+Hypothesis HG0 : GoodD ds0.
+
+Notation dstk k := (dbuild_upto cmd g hid s0 p0 k ds0).
+
+Lemma dbuild_upto_S k : dstk (S k) = dbuild_step cmd g hid s0 p0 (dstk k) k.
+Proof. unfold dbuild_upto. rewrite seq_S, fold_left_app. reflexivity. Qed.
+
+Lemma dstep_cases k :
+  (dstk (S k) = drun_edge cmd g hid (dstk k) k /\ want_start p0 k = true /\ phony k = false /\
+   dirty_now_d g s0 (dstk k) k = true) \/
+  (dstk (S k) = dstk k /\
+   (phony k = true \/ want_start p0 k = false \/ dirty_now_d g s0 (dstk k) k = false)).
+Proof.
+  rewrite dbuild_upto_S. unfold dbuild_step.
+  destruct (want_start p0 k); [|right; split; [reflexivity|right; left; reflexivity]].
+  destruct (phony k); [right; split; [reflexivity|left; reflexivity]|].
+  destruct (dirty_now_d g s0 (dstk k) k); [left; repeat split; reflexivity|].
+  right; split; [reflexivity|right; right; reflexivity].
+Qed.
+
+(* only outputs of wanted real statements below [k] have changed *)
+Definition FrameD (k : nat) (ds : dstate) : Prop :=
+  forall n, (h_disk (d_h ds) n = h_disk (d_h ds0) n /\ h_blog (d_h ds) n = h_blog (d_h ds0) n /\
+             h_ghost (d_h ds) n = h_ghost (d_h ds0) n /\ d_deps ds n = d_deps ds0 n) \/
+            (exists e, g_producer g n = Some e /\ (e < k)%nat /\ want_start p0 e = true /\ phony e = false).
+
+Lemma dbuild_inv1 k : (k <= g_nedges g)%nat ->
+  GoodD (dstk k) /\ h_hash (d_h (dstk k)) = h_hash (d_h ds0) /\ FrameD k (dstk k) /\
+  h_clock (d_h ds0) <= h_clock (d_h (dstk k)).
+Proof.
+  induction k as [|k IH]; intros Hk.
+  - split; [exact HG0|]. split; [reflexivity|]. split; [|cbn; lia]. intros n. left. repeat split; reflexivity.
+  - destruct IH as [HGk [Hh [Hf Hcl]]]; [lia|].
+    destruct (dstep_cases k) as [[Hs [Hw [Hph _]]]|[Hs _]]; rewrite Hs.
+    + destruct (drun_edge_spec (dstk k) k HGk ltac:(lia) Hph) as [HG' [Hh' [_ [Hout _]]]]. cbn zeta in *.
+      split; [exact HG'|]. split; [congruence|]. split.
+      * intros n. destruct (in_dec Nat.eq_dec n (outs k)) as [Hin|Hnin].
+        -- right. exists k. split; [apply o_prod_d; exact Hin|]. split; [lia|]. split; assumption.
+        -- destruct (Hout n Hnin) as [E1 [E2 [E3 E4]]]. rewrite E1, E2, E3, E4.
+           destruct (Hf n) as [Hsm|[e [He [Hlt Hr]]]]; [left; exact Hsm|].
+           right. exists e. split; [exact He|]. split; [lia|exact Hr].
+      * rewrite (drun_edge_h (dstk k) k ltac:(lia)).
+        destruct (proj1 HGk) as [[A [B _]] _].
+        destruct (run_edge_spec cmd gi (d_h (dstk k)) k A B) as [_ [Hc _]]. cbn zeta in Hc. lia.
+    + split; [exact HGk|]. split; [exact Hh|]. split; [|exact Hcl].
+      intros n. destruct (Hf n) as [Hsm|[e [He [Hlt Hr]]]]; [left; exact Hsm|].
+      right. exists e. split; [exact He|]. split; [lia|exact Hr].
+Qed.
+
+End BuildD.
+
+Lemma goodd_build ds T ds' : GoodD ds -> dbuild cmd g hid ds T = Some ds' -> GoodD ds'.
+Proof.
+  intros HG H. unfold dbuild in H. destruct (dscan g ds T) as [c|m d|e| |s p]; try discriminate.
+  inversion H; subst ds'. apply (dbuild_inv1 ds s p HG (g_nedges g) (le_n _)).
+Qed.
+
+Theorem goodd_step ds x : GoodD ds -> step_ok g x = true -> GoodD (dapply_step cmd g hid ds x).
+Proof.
+  intros HG Hok. destruct x as [n c|n|e h|T]; cbn [dapply_step step_ok] in *.
+  - apply goodd_edit; assumption.
+  - apply goodd_delete; exact HG.
+  - apply goodd_setcmd; exact HG.
+  - destruct (dbuild cmd g hid ds T) as [ds'|] eqn:Hb; [|exact HG]. apply (goodd_build ds T ds' HG Hb).
+Qed.
+
+Theorem goodd_hist : forall h ds, GoodD ds -> hist_ok g h = true -> GoodD (drun_hist cmd g hid ds h).
+Proof.
+  induction h as [|x h IH]; intros ds HG Hok; [exact HG|].
+  cbn [hist_ok forallb] in Hok. apply andb_true_iff in Hok. destruct Hok as [Hx Hh].
+  change (drun_hist cmd g hid ds (x :: h)) with (drun_hist cmd g hid (dapply_step cmd g hid ds x) h).
+  apply IH; [apply goodd_step; assumption|exact Hh].
+Qed.
+
+
+
+Notation Gd ds := (graph_of g (d_h ds)).
+Notation Wd ds := (world_of_d ds).
+Notation eins e := (ei_ins (g_edge g e)).
 
 Lemma Gd_wf ds : wf_spec (Gd ds).
 Proof. exact Hwf. Qed.
@@ -1275,7 +1432,7 @@ Lemma dbuild_trace ds0 s0 p0 k :
 Proof.
   induction k as [|k [l [Hl Hin]]].
   - exists []. split; [reflexivity|]. intros e. split; [intros []|intros [H _]; lia].
-  - destruct (dstep_cases cmd g hid ds0 s0 p0 k) as [[Hs [Hw [Hph Hd]]]|[Hs Hskip]]; rewrite Hs.
+  - destruct (dstep_cases ds0 s0 p0 k) as [[Hs [Hw [Hph Hd]]]|[Hs Hskip]]; rewrite Hs.
     + exists (k :: l). split; [rewrite drun_edge_trace, Hl; reflexivity|].
       intros e. cbn [In]. rewrite Hin. split.
       * intros [<-|[Hlt Hr]]; [split; [lia|]; split; [exact Hw|]; split; [exact Hph|exact Hd]|split; [lia|exact Hr]].
@@ -1335,70 +1492,207 @@ Proof.
     destruct (reach_finalD (Gd ds) (Wd ds) (Gd_wf ds) (Gd_wg ds) (Gd_frag ds) T s p Hs n RSn) as [Fn _].
     unfold node_final in Fn. change (g_producer (Gd ds) n) with (g_producer g n) in Fn. rewrite Hp in Fn.
     destruct (accepted_factsD (Gd ds) (Wd ds) (Gd_wf ds) (Gd_wg ds) (Gd_frag ds) T s p Hs) as [_ [HR _]].
-    destruct (HR e Fn) as [_ [_ [_ [_ [_ H6]]]]]. apply H6. exact Hfail.
+    destruct (HR e Fn) as [_ [_ [_ [_ [_ H6]]]]]. apply (proj1 H6). exact Hfail.
 Qed.
 
-End PartB.
 
-(* ================================================================== Part C: what is dirty at the scan is still dirty at its turn *)
-(* ---- the restat-free cone *)
-Lemma taint_length g hid k : length (taint g hid k) = k.
-Proof. induction k as [|k IH]; [reflexivity|]. cbn [taint]. rewrite app_length, IH. cbn [length]. lia. Qed.
+(* ================================================================== Part E: the deps manifest against the inlined manifest *)
+Notation Gi ds := (graph_of gi (d_h ds)).
+Notation Wi ds := (world_of (d_h ds)).
 
-Lemma taint_prefix g hid k k' u : (u < k)%nat -> (k <= k')%nat ->
-  nth u (taint g hid k') false = nth u (taint g hid k) false.
+Lemma spec_ins_i st w e : (e < g_nedges g)%nat -> spec_ins (graph_of gi st) w e = read_ins g hid e.
 Proof.
-  intros Hu Hk. induction Hk as [|k' Hk IH]; [reflexivity|].
-  cbn [taint]. rewrite app_nth1 by (rewrite taint_length; lia). exact IH.
+  intros He. unfold spec_ins, valid_deps, spec_load. cbn [graph_of inline g_edge inline_edge set_hash ei_deps].
+  rewrite app_nil_r. change (nonoo_ins (graph_of gi st) e) with (nonoo_ins gi e). apply (nonoo_inline g hid e Hfrag He).
 Qed.
 
-Lemma existsb_ext_in' {A : Type} (f f' : A -> bool) : forall l,
-  (forall a, In a l -> f a = f' a) -> existsb f l = existsb f' l.
+Lemma hid_none e : (e < g_nedges g)%nat -> ei_deps (g_edge g e) = DepsNone -> hid e = [].
+Proof. intros He Hd. apply (proj2 (frag_ABD_edge g hid e Hfrag He)). congruence. Qed.
+
+Lemma phony_hid e : (e < g_nedges g)%nat -> phony e = true -> hid e = [].
 Proof.
-  induction l as [|a l IH]; intros H; [reflexivity|]. cbn [existsb].
-  rewrite (H a (or_introl eq_refl)), IH; [reflexivity|]. intros b Hb. apply H. right; exact Hb.
+  intros He Hph. destruct (deps_kind_cases g e HfD He) as [Hd|Hd]; [apply hid_none; assumption|].
+  destruct (frag_D_edge g e HfD He) as [_ [_ H]]. destruct (H Hd) as [Hc _]. congruence.
 Qed.
 
-Lemma tainted_spec g hid u :
-  topo_ordered (inline g hid) = true -> frag_ABD g hid = true -> (u < g_nedges g)%nat ->
-  tainted g hid u = (ei_restat (g_edge g u) || reads_tainted g hid u)%bool.
+(* what the record of a statement is worth, in a state that satisfies the invariants *)
+Lemma load_cases ds e : GoodD ds -> (e < g_nedges g)%nat ->
+  (spec_load (Gd ds) (Wd ds) e = LdFail /\ phony e = false /\
+   exists o0, In o0 (outs e) /\ h_disk (d_h ds) o0 = None) \/
+  (exists l, spec_load (Gd ds) (Wd ds) e = LdOk l /\ spec_ins (Gd ds) (Wd ds) e = read_ins g hid e).
 Proof.
-  intros Ht Hf Hu. unfold tainted.
-  rewrite (taint_prefix g hid (S u) (g_nedges g) u) by lia.
-  cbn [taint]. rewrite app_nth2 by (rewrite taint_length; lia).
-  rewrite taint_length, Nat.sub_diag. cbn [nth]. f_equal.
-  unfold reads_tainted. apply existsb_ext_in'.
-  intros i Hi. destruct (g_producer g i) as [u'|] eqn:Hp; [|reflexivity].
-  unfold tainted. symmetry. apply taint_prefix; [|lia].
-  pose proof (edges_all_spec (inline g hid) _ u Ht) as H. cbn beta in H.
-  specialize (H ltac:(cbn [inline g_nedges]; exact Hu)). rewrite forallb_forall in H.
-  assert (Hin : In i (ei_ins (g_edge (inline g hid) u))).
-  { rewrite <- (nonoo_inline g hid u Hf Hu) in Hi. apply (nonoo_incl (inline g hid) u). exact Hi. }
-  specialize (H i Hin). cbn [inline g_producer] in H. rewrite Hp in H. apply Nat.ltb_lt. exact H.
+  intros HG He. destruct (deps_kind_cases g e HfD He) as [Hd|Hd].
+  - right. exists []. split; [apply spec_load_none; exact Hd|].
+    unfold spec_ins, valid_deps. rewrite (spec_load_none (Gd ds) (Wd ds) e Hd). unfold read_ins. rewrite (hid_none e He Hd). reflexivity.
+  - destruct (frag_D_edge g e HfD He) as [_ [_ H]]. destruct (H Hd) as [Hph [Hne _]].
+    destruct (outs e) as [|o0 os] eqn:Hos; [congruence|].
+    assert (Ho0 : In o0 (outs e)) by (rewrite Hos; left; reflexivity).
+    assert (Hnolog : h_blog (d_h ds) o0 = None -> h_disk (d_h ds) o0 = None).
+    { intros Hb. destruct HG as [[[_ [_ [_ [_ E]]]] _] _].
+      destruct (h_disk (d_h ds) o0) eqn:Hdo; [|reflexivity]. exfalso.
+      apply (E o0 e (o_prod_d e o0 Ho0) Hph); [rewrite Hdo; discriminate|exact Hb]. }
+    destruct HG as [_ [D1 D2]].
+    unfold spec_load, spec_ins, valid_deps, spec_load. cbn [graph_of g_edge set_hash ei_deps ei_outs]. rewrite Hd, Hos.
+    cbn [world_of_d w_dlog w_mtime].
+    destruct (d_deps ds o0) as [[dm l]|] eqn:Hr.
+    + destruct (Z.gtb_spec (mtime_of (d_h ds) o0) dm) as [Hgt|Hle].
+      * left. split; [reflexivity|]. split; [exact Hph|]. exists o0. split; [left; reflexivity|]. apply Hnolog.
+        destruct (h_blog (d_h ds) o0) eqn:Hb; [|reflexivity]. exfalso.
+        destruct (D2 e o0 Hd Ho0 ltac:(rewrite Hb; discriminate)) as [dm' [Hr' Hle]]. rewrite Hr in Hr'. inversion Hr'; subst. lia.
+      * right. exists l. split; [reflexivity|].
+        destruct (D1 o0 dm l Hr) as [_ [e' [Ho' [_ Hh]]]].
+        assert (e' = e) by (pose proof (o_prod_d e' o0 Ho') as H1; rewrite (o_prod_d e o0 Ho0) in H1; congruence).
+        subst e' l. reflexivity.
+    + left. split; [reflexivity|]. split; [exact Hph|]. exists o0. split; [left; reflexivity|]. apply Hnolog.
+      destruct (h_blog (d_h ds) o0) eqn:Hb; [|reflexivity]. exfalso.
+      destruct (D2 e o0 Hd Ho0 ltac:(rewrite Hb; discriminate)) as [dm' [Hr' _]]. congruence.
 Qed.
 
+Lemma static_d_i ds : same_static (Gd ds) (Gi ds).
+Proof. intros e. repeat split; reflexivity. Qed.
+Lemma static_i_d ds : same_static (Gi ds) (Gd ds).
+Proof. intros e. repeat split; reflexivity. Qed.
+
+Lemma newer_d_i ds x i : newer_than (Gd ds) (Wd ds) x i -> newer_than (Gi ds) (Wi ds) x i.
+Proof.
+  apply newer_ext; [reflexivity|reflexivity|].
+  intros n e Hp Hph. split; [exact Hph|].
+  change (nonoo_ins (Gd ds) e) with (nonoo_ins g e). change (nonoo_ins (Gi ds) e) with (nonoo_ins gi e).
+  rewrite (nonoo_inline g hid e Hfrag (Hwg n e Hp)). unfold read_ins. apply incl_appl, incl_refl.
+Qed.
+
+Lemma newer_i_d ds x i : newer_than (Gi ds) (Wi ds) x i -> newer_than (Gd ds) (Wd ds) x i.
+Proof.
+  apply newer_ext; [reflexivity|reflexivity|].
+  intros n e Hp Hph. split; [exact Hph|].
+  change (nonoo_ins (Gd ds) e) with (nonoo_ins g e). change (nonoo_ins (Gi ds) e) with (nonoo_ins gi e).
+  rewrite (nonoo_inline g hid e Hfrag (Hwg n e Hp)). unfold read_ins.
+  rewrite (phony_hid e (Hwg n e Hp) Hph), app_nil_r. apply incl_refl.
+Qed.
+
+(* the declarative dirty state is the same for the two manifests *)
+Lemma md_d_i ds n : GoodD ds -> must_dirty (Gd ds) (Wd ds) n -> must_dirty (Gi ds) (Wi ds) n.
+Proof.
+  intros HG. apply md_transfer; [reflexivity|reflexivity|reflexivity|apply static_d_i|apply newer_d_i|].
+  intros n0 e Hp. pose proof (Hwg n0 e Hp) as He.
+  destruct (load_cases ds e HG He) as [[Hf [Hph [o0 [Ho0 Hdo]]]]|[l [Hl Hsi]]].
+  - left. intros n' Hp'. apply (md_self (Gi ds) (Wi ds) n' e o0 Hp' Hph Ho0).
+    left. left. cbn [world_of w_mtime]. unfold mtime_of. rewrite Hdo. reflexivity.
+  - right. split; [rewrite Hsi, (spec_ins_i (d_h ds) (Wi ds) e He); apply incl_refl|]. split; [congruence|].
+    intros Hph Hnil. change (ei_ins (g_edge (Gd ds) e)) with (eins e) in Hnil.
+    cbn [graph_of inline g_edge inline_edge set_hash ei_ins]. rewrite Hnil, (phony_hid e He Hph). apply splice_nil_r.
+Qed.
+
+Lemma md_i_d ds n : GoodD ds -> must_dirty (Gi ds) (Wi ds) n -> must_dirty (Gd ds) (Wd ds) n.
+Proof.
+  intros HG. apply md_transfer; [reflexivity|reflexivity|reflexivity|apply static_i_d|apply newer_i_d|].
+  intros n0 e Hp. pose proof (Hwg n0 e Hp) as He.
+  destruct (load_cases ds e HG He) as [[Hf _]|[l [Hl Hsi]]].
+  - left. intros n' Hp'. apply (md_deps (Gd ds) (Wd ds) n' e Hp' Hf).
+  - right. split; [rewrite Hsi, (spec_ins_i (d_h ds) (Wi ds) e He); apply incl_refl|]. split.
+    + unfold spec_load. cbn [graph_of inline g_edge inline_edge set_hash ei_deps]. discriminate.
+    + intros _ Hnil. cbn [graph_of inline g_edge inline_edge set_hash ei_ins] in Hnil.
+      change (ei_ins (g_edge (Gd ds) e)) with (eins e).
+      destruct (eins e) as [|x xs]; [reflexivity|]. exfalso.
+      assert (Hx : In x (splice (x :: xs) (ei_noo (g_edge g e)) (hid e))) by (apply in_splice; left; left; reflexivity).
+      rewrite Hnil in Hx. destruct Hx.
+Qed.
+
+(* ---- the statements the targets need *)
+Lemma pot_in_inline ds e : GoodD ds -> incl (pot_ins (Gd ds) (Wd ds) e) (ei_ins (g_edge gi e)).
+Proof.
+  intros HG i Hi. unfold pot_ins in Hi. apply in_app_or in Hi. apply inline_ins_in.
+  destruct Hi as [Hi|Hi]; [left; exact Hi|right].
+  unfold recorded_deps in Hi. cbn [graph_of g_edge set_hash ei_deps ei_outs] in Hi.
+  destruct (ei_deps (g_edge g e)) eqn:Hd; [destruct Hi| |].
+  - cbn [world_of_d w_depfile] in Hi. destruct Hi.
+  - destruct (outs e) as [|o0 os] eqn:Hos; [destruct Hi|]. cbn [world_of_d w_dlog] in Hi.
+    destruct (d_deps ds o0) as [[dm l]|] eqn:Hr; [|destruct Hi].
+    destruct (proj1 (proj2 HG) o0 dm l Hr) as [_ [e' [Ho' [_ Hh]]]].
+    assert (e' = e); [|subst; exact Hi].
+    pose proof (o_prod_d e' o0 Ho') as H1. rewrite (o_prod_d e o0) in H1 by (rewrite Hos; left; reflexivity). congruence.
+Qed.
+
+Lemma needed_d_i ds T e : GoodD ds -> neededP (Gd ds) (Wd ds) T e -> needed gi T e.
+Proof.
+  intros HG [n [Rn Hp]]. exists n. split; [|exact Hp]. unfold reachP in Rn. clear Hp.
+  induction Rn as [t Ht|x y Hx IH [ex [Hex Hin]]]; [apply reach_target; exact Ht|].
+  apply (reach_step gi (manifest_ins gi) T x y IH). exists ex. split; [exact Hex|].
+  apply (pot_in_inline ds ex HG). exact Hin.
+Qed.
+
+Section Ordered.
+Hypothesis Hord : hidden_reads_ordered g hid = true.
+Hypothesis Hnip : no_inputless_phony g = true.
+
+Lemma hid_generated e i u : (e < g_nedges g)%nat -> In i (hid e) -> g_producer g i = Some u -> In i (eins e).
+Proof.
+  intros He Hi Hp. pose proof (edges_all_spec g _ e Hord He) as H. cbn beta in H.
+  rewrite forallb_forall in H. specialize (H i Hi). rewrite Hp in H. apply mem_node_In. exact H.
+Qed.
+
+Lemma reach_i_S ds T s p : dscan g ds T = ScanOk s p ->
+  forall n, reach gi T n -> g_producer g n = None \/ reachS (Gd ds) T s n.
+Proof.
+  intros Hs n Hn. induction Hn as [t Ht|x y Hx IH [ex [Hex Hin]]]; [right; apply reach_target; exact Ht|].
+  cbn [inline g_producer] in Hex.
+  destruct IH as [Hc|IH]; [congruence|].
+  destruct (g_producer g y) as [u|] eqn:Hpy; [right|left; reflexivity].
+  apply (reach_step (Gd ds) _ T x y IH). exists ex. split; [exact Hex|].
+  destruct (reach_finalD (Gd ds) (Wd ds) (Gd_wf ds) (Gd_wg ds) (Gd_frag ds) T s p Hs x IH) as [Fx _].
+  unfold node_final in Fx. change (g_producer (Gd ds) x) with (g_producer g x) in Fx. rewrite Hex in Fx.
+  destruct (accepted_factsD (Gd ds) (Wd ds) (Gd_wf ds) (Gd_wg ds) (Gd_frag ds) T s p Hs) as [_ [HR _]].
+  apply (RD_manifest (Gd ds) (Wd ds) s ex (HR ex Fx)).
+  change (ei_ins (g_edge (Gd ds) ex)) with (eins ex).
+  apply inline_ins_in in Hin. destruct Hin as [Hin|Hin]; [exact Hin|].
+  apply (hid_generated ex y u (Hwg x ex Hex) Hin Hpy).
+Qed.
+
+Lemma nip_inline : no_inputless_phony gi = true.
+Proof.
+  unfold no_inputless_phony, edges_all. apply forallb_forall. intros e He. apply in_seq in He.
+  cbn [inline g_nedges] in He. pose proof (edges_all_spec g _ e Hnip ltac:(lia)) as H. cbn beta in H.
+  cbn [inline g_edge inline_edge ei_phony ei_ins].
+  destruct (phony e) eqn:Hph; [|reflexivity]. cbn [andb] in *.
+  rewrite (phony_hid e ltac:(lia) Hph), splice_nil_r. exact H.
+Qed.
+
+(* the two scans want the same statements *)
+Lemma want_eq ds T s p si pi :
+  GoodD ds -> dscan g ds T = ScanOk s p -> scan (Gi ds) (Wi ds) T = ScanOk si pi ->
+  forall e, want_start p e = want_start pi e.
+Proof.
+  intros HG Hs Hsi e.
+  assert (Hwi : wf_spec (Gi ds)) by exact Hwfi.
+  assert (Hgi : wf_graph (Gi ds)) by exact Hwg.
+  assert (Hfi : frag_AB (Gi ds) = true) by exact (frag_AB_inline g hid HfD).
+  destruct (want_start p e) eqn:Hw; symmetry.
+  - apply want_start_iff in Hw.
+    destruct (scan_want_soundD (Gd ds) (Wd ds) (Gd_wf ds) (Gd_wg ds) (Gd_frag ds) T s p Hs e Hw) as [Hn [_ [_ [o [Ho Hmd]]]]].
+    pose proof (needed_d_i ds T e HG Hn) as Hni.
+    assert (He : (e < g_nedges g)%nat) by (destruct Hni as [n [_ Hp]]; apply (Hwg n e Hp)).
+    apply want_start_iff.
+    apply (scan_want_complete (Gi ds) (Wi ds) Hwi Hgi Hfi T si pi Hsi e).
+    + apply (needed_G gi T (d_h ds) e). exact Hni.
+    + exists o. split; [exact Ho|apply (md_d_i ds o HG Hmd)].
+    + intros [Hph Hnil]. apply (nip_edge gi e nip_inline He). split; [exact Hph|exact Hnil].
+  - destruct (want_start pi e) eqn:Hwi'; [exfalso|reflexivity]. apply want_start_iff in Hwi'.
+    destruct (scan_want_sound (Gi ds) (Wi ds) Hwi Hgi Hfi T si pi Hsi e Hwi') as [Hn [o [Ho Hmd]]].
+    apply (needed_G gi T (d_h ds) e) in Hn. destruct Hn as [n [Rn Hp]].
+    assert (He : (e < g_nedges g)%nat) by (apply (Hwg n e Hp)).
+    destruct (reach_i_S ds T s p Hs n Rn) as [Hc|RS]; [cbn [inline g_producer] in Hp; congruence|].
+    destruct (scan_want_completeD (Gd ds) (Wd ds) (Gd_wf ds) (Gd_wg ds) (Gd_frag ds) T s p Hs e) as [Hwd _].
+    + exists n. split; [exact RS|exact Hp].
+    + exists o. split; [exact Ho|apply (md_i_d ds o HG Hmd)].
+    + intros [Hph Hnil]. apply (nip_edge g e Hnip He). split; [exact Hph|exact Hnil].
+    + apply want_start_iff in Hwd. congruence.
+Qed.
+
+End Ordered.
 
 Section PartC.
-Variable cmd : edge -> N -> snapshot -> node -> content.
-Variable g : graph.
-Variable hid : edge -> list node.
-Hypothesis Hwf : wf_spec g.
-Hypothesis Hwg : wf_graph g.
-Hypothesis Hfrag : frag_ABD g hid = true.
-Hypothesis Htopo : topo_ordered (inline g hid) = true.
-
-Notation gi := (inline g hid).
-Notation outs e := (ei_outs (g_edge g e)).
-Notation eins e := (ei_ins (g_edge g e)).
-Notation phony e := (ei_phony (g_edge g e)).
-Notation Gd ds := (graph_of g (d_h ds)).
-Notation Wd ds := (world_of_d ds).
-
-Let HfD : frag_D g = true := frag_ABD_D g hid Hfrag.
-Let Hwfi : wf_spec gi := wf_spec_inline g hid Hwf.
-
 Variables (ds0 : dstate) (T : list node) (s0 : sstate) (p0 : plan).
-Hypothesis HG0 : GoodD cmd g hid ds0.
+Hypothesis HG0 : GoodD ds0.
 Hypothesis Hscan : dscan g ds0 T = ScanOk s0 p0.
 
 Notation n_ := (g_nedges g).
@@ -1414,11 +1708,11 @@ Notation MD0 := (must_dirty (Gd ds0) (Wd ds0)).
 Notation ins0 e := (es_ins (st_edge s0 e)).
 Notation c0 := (h_clock (d_h ds0)).
 
-Let AF := accepted_factsD G0 W0 (Gd_wf g Hwf ds0) (Gd_wg g Hwg ds0) (Gd_frag g hid Hfrag ds0) T s0 p0 Hscan.
+Let AF := accepted_factsD G0 W0 (Gd_wf ds0) (Gd_wg ds0) (Gd_frag ds0) T s0 p0 Hscan.
 
 Lemma inv1 k : (k <= n_)%nat ->
-  GoodD cmd g hid (dstk k) /\ h_hash (stk k) = h_hash st0 /\ FrameD g ds0 p0 k (dstk k) /\ c0 <= h_clock (stk k).
-Proof. apply (dbuild_inv1 cmd g hid Hwf Hwg Hfrag Htopo ds0 s0 p0 HG0). Qed.
+  GoodD (dstk k) /\ h_hash (stk k) = h_hash st0 /\ FrameD ds0 p0 k (dstk k) /\ c0 <= h_clock (stk k).
+Proof. apply (dbuild_inv1 ds0 s0 p0 HG0). Qed.
 
 Lemma o_prodC e o : In o (outs e) -> g_producer g o = Some e.
 Proof. apply (proj1 Hwf). Qed.
@@ -1442,9 +1736,9 @@ Qed.
 Lemma step_other k x : (k < n_)%nat -> ~ In x (outs k) ->
   h_disk (stk (S k)) x = h_disk (stk k) x /\ h_blog (stk (S k)) x = h_blog (stk k) x.
 Proof.
-  intros Hk Hx. destruct (dstep_cases cmd g hid ds0 s0 p0 k) as [[Hs [_ [Hph _]]]|[Hs _]]; rewrite Hs; [|split; reflexivity].
+  intros Hk Hx. destruct (dstep_cases ds0 s0 p0 k) as [[Hs [_ [Hph _]]]|[Hs _]]; rewrite Hs; [|split; reflexivity].
   destruct (inv1 k ltac:(lia)) as [HGk _].
-  destruct (drun_edge_spec cmd g hid Hwf Hwg Hfrag Htopo (dstk k) k HGk Hk Hph) as [_ [_ [_ [Hout _]]]].
+  destruct (drun_edge_spec (dstk k) k HGk Hk Hph) as [_ [_ [_ [Hout _]]]].
   cbn zeta in Hout. destruct (Hout x Hx) as [E1 [E2 _]]. split; assumption.
 Qed.
 
@@ -1461,11 +1755,11 @@ Qed.
 Lemma mtime_mono k x : (k <= n_)%nat ->
   mtime_of st0 x <= mtime_of (stk k) x /\ (mtime_of st0 x <> 0 -> mtime_of (stk k) x <> 0).
 Proof.
-  induction k as [|k IH]; intros Hk; [split; [lia|auto]|].
+  induction k as [|k IH]; intros Hk; [cbn [dbuild_upto seq fold_left]; split; [lia|auto]|].
   destruct (IH ltac:(lia)) as [A B].
-  destruct (dstep_cases cmd g hid ds0 s0 p0 k) as [[Hs [_ [Hph _]]]|[Hs _]]; rewrite Hs; [|split; assumption].
+  destruct (dstep_cases ds0 s0 p0 k) as [[Hs [_ [Hph _]]]|[Hs _]]; rewrite Hs; [|split; assumption].
   destruct (inv1 k ltac:(lia)) as [[[[C1 [C2 _]] _] _] _].
-  rewrite (drun_edge_h cmd g hid Hfrag (dstk k) k ltac:(lia)).
+  rewrite (drun_edge_h (dstk k) k ltac:(lia)).
   destruct (run_edge_spec cmd gi (stk k) k C1 C2) as [_ [_ [_ [Hfs _]]]]. cbn zeta in Hfs.
   unfold mtime_of in *. destruct (Hfs x) as [Hsame|[m [Hm [Hlt _]]]].
   - rewrite Hsame. split; assumption.
@@ -1480,7 +1774,7 @@ Lemma ran_fresh u : (u < n_)%nat -> dstk (S u) = drun_edge cmd g hid (dstk u) u 
   ei_restat (g_edge g u) = false ->
   forall o, In o (outs u) -> exists mo c, h_disk (stk (S u)) o = Some (mo, c) /\ c0 < mo.
 Proof.
-  intros Hu Hs Hr o Ho. rewrite Hs, (drun_edge_h cmd g hid Hfrag (dstk u) u Hu).
+  intros Hu Hs Hr o Ho. rewrite Hs, (drun_edge_h (dstk u) u Hu).
   destruct (inv1 u ltac:(lia)) as [[[[C1 [C2 _]] _] _] [_ [_ Hc]]].
   destruct (run_edge_spec cmd gi (stk u) u C1 C2) as [_ [_ [_ [_ [_ [_ Hnr]]]]]]. cbn zeta in Hnr.
   destruct (Hnr Hr o Ho) as [mo [Hd Hlt]]. exists mo. eexists. split; [exact Hd|lia].
@@ -1503,7 +1797,7 @@ Proof. reflexivity. Qed.
 Lemma marks_final e : es_mark (st_edge s0 e) = VisitNone \/ es_mark (st_edge s0 e) = VisitDone.
 Proof.
   unfold dscan, scan in Hscan.
-  destruct (add_targets_spec G0 W0 (Gd_wf g Hwf ds0) T _ _ _ _ Hscan (SInv_init G0 W0) (Inv_init G0 W0)) as [_ [I1 _]].
+  destruct (add_targets_spec G0 W0 (Gd_wf ds0) T _ _ _ _ Hscan (SInv_init G0 W0) (Inv_init G0 W0)) as [_ [I1 _]].
   destruct (es_mark (st_edge s0 e)) eqn:Hm; [left; reflexivity| |right; reflexivity].
   destruct (I1 e Hm) as [x [[] _]].
 Qed.
@@ -1574,7 +1868,7 @@ Proof.
     assert (ES : spec_ins G0 W0 u = nonoo_ins g u ++ l).
     { unfold spec_ins, valid_deps. rewrite Hl. reflexivity. }
     rewrite EJ. split; [|split; [rewrite <- EJ; exact Hsub|]].
-    { unfold read_ins. destruct (loaded_is_hid u l Hu Hl) as [->|->]; [rewrite app_nil_r; apply incl_appl, incl_refl|apply incl_refl]. }
+    { unfold read_ins. destruct (loaded_is_hid u l Hu Hl) as [Hl0|Hl0]; rewrite Hl0; [rewrite app_nil_r; apply incl_appl, incl_refl|apply incl_refl]. }
     destruct (must_dirty_out_inv G0 W0 o u Hmd (o_prodC u o Ho))
       as [[i [Hi' Hdi]]|[[Hph [Hnil [_ [o' [Ho' Hz]]]]]|[[Hph [o' [Ho' Hr]]]|Hf]]].
     + left. exists i. rewrite <- ES. split; [exact Hi'|exact Hdi].
@@ -1654,4 +1948,476 @@ Proof.
   right; right. destruct (h_blog st0 o') as [[h m]|]; [apply HN; exact Ht|exact Ht].
 Qed.
 
+Lemma J_incl u : (u < n_)%nat -> es_mark (st_edge s0 u) = VisitDone ->
+  incl (nonoo_ins GN u) (read_ins g hid u) /\ incl (nonoo_ins GN u) (ins0 u).
+Proof.
+  intros Hu Hd. destruct AF as [_ [HR _]].
+  destruct (HR u Hd) as [_ [_ [_ [_ [H5 _]]]]].
+  assert (Hsub : incl (nonoo_ins GN u) (ins0 u)).
+  { rewrite nonoo_now. destruct (Nat.ltb _ _); [apply incl_refl|].
+    intros x Hx. rewrite <- (firstn_skipn (length (ins0 u) - ei_noo (g_edge g u)) (ins0 u)).
+    apply in_or_app. left; exact Hx. }
+  split; [|exact Hsub].
+  destruct H5 as [[Hi _]|[l [Hl [Hi _]]]].
+  - assert (EJ : nonoo_ins GN u = nonoo_ins g u).
+    { rewrite nonoo_now. change (es_ins (st_edge s0 u)) with (ins0 u). rewrite Hi. reflexivity. }
+    rewrite EJ. unfold read_ins. apply incl_appl, incl_refl.
+  - change (ei_ins (g_edge G0 u)) with (eins u) in Hi. change (ei_noo (g_edge G0 u)) with (ei_noo (g_edge g u)) in Hi.
+    assert (EJ : nonoo_ins GN u = nonoo_ins g u ++ l).
+    { destruct (deps_kind_cases g u HfD Hu) as [Hdk|Hdk].
+      - rewrite (spec_load_none G0 W0 u Hdk) in Hl. inversion Hl; subst l. rewrite app_nil_r.
+        rewrite nonoo_now. change (es_ins (st_edge s0 u)) with (ins0 u). rewrite Hi, splice_nil_r. reflexivity.
+      - destruct (frag_D_edge g u HfD Hu) as [_ [_ H]]. destruct (H Hdk) as [_ [_ Hn]].
+        rewrite nonoo_now. change (es_ins (st_edge s0 u)) with (ins0 u).
+        rewrite Hi, (nonoo_splice _ _ l Hn). unfold nonoo_ins.
+        destruct (Nat.ltb_spec (length (eins u)) (ei_noo (g_edge g u))); [lia|reflexivity]. }
+    rewrite EJ. unfold read_ins.
+    destruct (loaded_is_hid u l Hu Hl) as [Hl0|Hl0]; rewrite Hl0; [rewrite app_nil_r; apply incl_appl, incl_refl|apply incl_refl].
+Qed.
+
+Lemma read_below u i u' : (u < n_)%nat -> In i (read_ins g hid u) -> g_producer g i = Some u' -> (u' < u)%nat.
+Proof.
+  intros Hu Hi Hp. pose proof (edges_all_spec gi _ u Htopo) as H. cbn beta in H.
+  specialize (H ltac:(cbn [inline g_nedges]; exact Hu)). rewrite forallb_forall in H.
+  assert (Hin : In i (ei_ins (g_edge gi u))).
+  { rewrite <- (nonoo_inline g hid u Hfrag Hu) in Hi. apply (nonoo_incl gi u). exact Hi. }
+  specialize (H i Hin). cbn [inline g_producer] in H. rewrite Hp in H. apply Nat.ltb_lt. exact H.
+Qed.
+
+(* PERSIST: a statement that was dirty at the scan and reads from no restat statement, directly or
+   transitively, is still dirty for Plan::CleanNode's test when its turn comes; afterwards its
+   outputs are fresh (or still to be remade, for phony statements) *)
+Lemma persist : forall u, (u < n_)%nat ->
+  es_mark (st_edge s0 u) = VisitDone ->
+  ((phony u = true /\ eins u = []) \/ (wantd p0 u /\ (phony u = false -> want_start p0 u = true))) ->
+  (exists o, In o (outs u) /\ MD0 o) ->
+  reads_tainted g hid u = false ->
+  (phony u = false -> dirty_now_d g s0 (dstk u) u = true) /\
+  (ei_restat (g_edge g u) = false -> forall k, (u < k)%nat -> (k <= n_)%nat ->
+     forall o, In o (outs u) -> must_dirty (GNk k) (Wk k) o \/ Fresh k o).
+Proof.
+  induction u as [u IH] using lt_wf_ind. intros Hu Hd Hw Hmd Hnr.
+  destruct AF as [[S1 _] [HR [[_ [_ [_ P3]]] _]]].
+  destruct (J_incl u Hu Hd) as [JR JI].
+  assert (Hin : forall i, In i (nonoo_ins GN u) -> MD0 i -> forall k, (u <= k)%nat -> (k <= n_)%nat ->
+            must_dirty (GNk k) (Wk k) i \/ Fresh k i).
+  { intros i Hi Hdi k Hk1 Hk2. destruct (g_producer g i) as [u'|] eqn:Hpi.
+    - pose proof (read_below u i u' Hu (JR i Hi) Hpi) as Hlt.
+      assert (Ht' : tainted g hid u' = false).
+      { unfold reads_tainted in Hnr. destruct (tainted g hid u') eqn:Ht; [|reflexivity].
+        assert (Hx : existsb (fun i0 => match g_producer g i0 with Some u0 => tainted g hid u0 | None => false end)
+                             (read_ins g hid u) = true); [|congruence].
+        apply existsb_exists. exists i. split; [apply JR; exact Hi|]. rewrite Hpi. exact Ht. }
+      rewrite (tainted_spec g hid u' Htopo Hfrag ltac:(lia)) in Ht'. apply orb_false_iff in Ht'. destruct Ht' as [Hr' Hnr'].
+      destruct (HR u Hd) as [D1 _]. pose proof (D1 i (JI i Hi)) as Fi.
+      assert (Hd' : es_mark (st_edge s0 u') = VisitDone).
+      { unfold node_final in Fi. change (g_producer G0 i) with (g_producer g i) in Fi. rewrite Hpi in Fi. exact Fi. }
+      assert (Hfl : ns_dirty (st_node s0 i) = true) by (apply (proj1 (S1 i Fi)); exact Hdi).
+      assert (Hw' : (phony u' = true /\ eins u' = []) \/ (wantd p0 u' /\ (phony u' = false -> want_start p0 u' = true))).
+      { destruct (HR u' Hd') as [_ [_ [D3 _]]].
+        destruct (D3 i (p_outC i u' Hpi) Hfl) as [[Hph' Hnil']|Hr0].
+        - left. split; [exact Hph'|]. pose proof (RD_manifest G0 W0 s0 u' (HR u' Hd')) as Hinc.
+          change (ei_ins (g_edge G0 u')) with (eins u') in Hinc.
+          destruct (eins u') as [|j jl]; [reflexivity|]. specialize (Hinc j (or_introl eq_refl)). rewrite Hnil' in Hinc. destruct Hinc.
+        - right. destruct Hw as [[Hphu Hnilu]|[Hwu _]].
+          + exfalso. pose proof (JI i Hi) as Hx. rewrite (ins_now_none u (phony_none u Hu Hphu)), Hnilu in Hx. destruct Hx.
+          + pose proof (P3 u Hwu (fun F => F) i (JI i Hi)) as Pi. unfold post in Pi.
+            change (g_producer G0 i) with (g_producer g i) in Pi. rewrite Hpi in Pi.
+            destruct (Pi Hr0) as [Hw1 Hw2]. split; [exact Hw1|]. intros _. apply want_start_iff. apply Hw2. exact Hfl. }
+      destruct (IH u' Hlt ltac:(lia) Hd' Hw' (ex_intro _ i (conj (p_outC i u' Hpi) Hdi)) Hnr') as [_ HB].
+      apply (HB Hr' k ltac:(lia) Hk2 i (p_outC i u' Hpi)).
+    - left. apply md_leaf; [exact Hpi|]. cbn [world_of w_mtime]. unfold mtime_of. rewrite (src_same k i Hk2 Hpi).
+      pose proof (must_dirty_leaf_inv G0 W0 i Hdi Hpi) as Hz. cbn [world_of_d w_mtime] in Hz. exact Hz. }
+  assert (HA : phony u = false -> dirty_now_d g s0 (dstk u) u = true).
+  { intros Hph. unfold dirty_now_d. destruct (es_deps_missing (st_edge s0 u)) eqn:Hmiss; [reflexivity|]. cbn [orb].
+    apply (dirty_now_complete GN (stk u) u (wf_spec_now g s0 Hwf) Hwg (frag_AB_now g s0 HfD)).
+    destruct Hmd as [o [Ho Hmdo]].
+    destruct (cause u Hu Hd (ex_intro _ o (conj Ho Hmdo)) Hmiss)
+      as [_ [_ [[i [Hi Hdi]]|[[Hc _]|[_ [o' [Ho' Hr]]]]]]].
+    - exists o. split; [exact Ho|]. apply (dirty_by_input u i o Hu Hph Ho Hi). apply (Hin i Hi Hdi u (le_n u) ltac:(lia)).
+    - congruence.
+    - exists o'. split; [exact Ho'|]. apply (reason_persists u o' Hu Ho' Hph Hr). }
+  split; [exact HA|].
+  intros Hr k Hk1 Hk2 o Ho. destruct (phony u) eqn:Hph.
+  - (* a phony statement: dirty or fresh through its inputs *)
+    pose proof (phony_none u Hu Hph) as Hdk.
+    assert (EJ : nonoo_ins GN u = nonoo_ins g u).
+    { rewrite nonoo_now. rewrite (ins_now_none u Hdk). reflexivity. }
+    destruct Hmd as [o0 [Ho0 Hmd0]].
+    destruct (must_dirty_out_inv G0 W0 o0 u Hmd0 (o_prodC u o0 Ho0))
+      as [[i [Hi Hdi]]|[[_ [Hnil [Hv [o' [Ho' Hz]]]]]|[[Hc _]|Hf]]].
+    + unfold spec_ins, valid_deps in Hi. rewrite (spec_load_none G0 W0 u Hdk), app_nil_r in Hi.
+      change (nonoo_ins G0 u) with (nonoo_ins g u) in Hi. rewrite <- EJ in Hi.
+      destruct (Hin i Hi Hdi k ltac:(lia) Hk2) as [Hm|Hfr].
+      * left. apply (md_input (GNk k) (Wk k) o u i (o_prodC u o Ho)); [rewrite spec_ins_now; exact Hi|exact Hm].
+      * right. intros x Hx. apply (nt_phony (GNk k) (Wk k) x o u i); [|exact (o_prodC u o Ho)|exact Hph|exact Hi|apply Hfr; exact Hx].
+        cbn [world_of w_mtime]. unfold mtime_of. rewrite (phony_off_disk k o u Hk2 (o_prodC u o Ho) Hph). reflexivity.
+    + left. apply (md_phony (GNk k) (Wk k) o u o' (o_prodC u o Ho) Hph); [|exact Hv|exact Ho'|].
+      * change (ei_ins (g_edge (GNk k) u)) with (ins0 u). rewrite (ins_now_none u Hdk). exact Hnil.
+      * cbn [world_of w_mtime]. unfold mtime_of. rewrite (phony_off_disk k o' u Hk2 (o_prodC u o' Ho') Hph). reflexivity.
+    + change (ei_phony (g_edge G0 u)) with (phony u) in Hc. congruence.
+    + rewrite (spec_load_none G0 W0 u Hdk) in Hf. discriminate.
+  - (* a real statement: it ran, and its command rewrites every output *)
+    right.
+    assert (Hws : want_start p0 u = true).
+    { destruct Hw as [[Hc _]|[_ Hws]]; [congruence|apply Hws; reflexivity]. }
+    destruct (dstep_cases ds0 s0 p0 u) as [[Hs _]|[_ [Hc|[Hc|Hc]]]]; [|congruence|congruence|rewrite (HA eq_refl) in Hc; discriminate].
+    destruct (ran_fresh u Hu Hs Hr o Ho) as [mo [c [Hdo Hlt]]].
+    destruct (outs_after u o Ho k Hk1 Hk2) as [Ed _].
+    intros x Hx. apply nt_file; cbn [world_of w_mtime]; unfold mtime_of; rewrite Ed, Hdo.
+    + destruct HG0 as [[[C1 _] _] _]. lia.
+    + lia.
+Qed.
+
+(* ---- the build of the deps manifest and the build of the inlined manifest, step by step *)
+Section EquivBuild.
+Hypothesis Hord : hidden_reads_ordered g hid = true.
+Hypothesis Hnr : no_restat_upstream_of_deps g hid = true.
+Hypothesis Hnip : no_inputless_phony g = true.
+Variables (si : sstate) (pi : plan).
+Hypothesis Hscan_i : scan (graph_of gi st0) (world_of st0) T = ScanOk si pi.
+
+Notation istk k := (build_upto cmd gi pi k st0).
+Notation GiX X := (graph_of gi X).
+Notation GNX X := (graph_of (graph_now g s0) X).
+
+Let HGi : Good cmd gi st0 := proj1 HG0.
+Let Hfi : frag_AB gi = true := frag_AB_inline g hid HfD.
+
+Lemma manifest_in0 e : incl (eins e) (ins0 e).
+Proof.
+  destruct AF as [[_ [_ [S3 _]]] [HR _]].
+  destruct (marks_final e) as [Hm|Hm].
+  - rewrite (proj2 (S3 e Hm)). apply incl_refl.
+  - apply (RD_manifest G0 W0 s0 e (HR e Hm)).
+Qed.
+
+Lemma Jgi e : (e < n_)%nat -> incl (nonoo_ins GN e) (read_ins g hid e).
+Proof.
+  intros He. destruct AF as [[_ [_ [S3 _]]] _].
+  destruct (marks_final e) as [Hm|Hm]; [|apply (J_incl e He Hm)].
+  rewrite nonoo_now. change (es_ins (st_edge s0 e)) with (ins0 e). rewrite (proj2 (S3 e Hm)).
+  change (ei_ins (g_edge G0 e)) with (eins e). unfold read_ins. apply incl_appl.
+  unfold nonoo_ins. apply incl_refl.
+Qed.
+
+Lemma ins0_in_gi e : incl (ins0 e) (ei_ins (g_edge gi e)).
+Proof.
+  destruct AF as [[_ [_ [S3 _]]] [HR _]].
+  destruct (marks_final e) as [Hm|Hm].
+  - rewrite (proj2 (S3 e Hm)). intros i Hi. apply inline_ins_in. left; exact Hi.
+  - intros i Hi. apply (pot_in_inline ds0 e HG0). apply (RD_pot G0 W0 s0 e (HR e Hm)). exact Hi.
+Qed.
+
+Lemma topo_now : topo_ordered GN = true.
+Proof.
+  unfold topo_ordered, edges_all. apply forallb_forall. intros e He. apply in_seq in He.
+  cbn [graph_now g_nedges] in He.
+  pose proof (edges_all_spec gi _ e Htopo) as H. cbn beta in H.
+  specialize (H ltac:(cbn [inline g_nedges]; lia)). rewrite forallb_forall in H.
+  apply forallb_forall. intros i Hi. apply (H i). apply ins0_in_gi. exact Hi.
+Qed.
+
+Lemma spec_ins_nowX X w e : spec_ins (GNX X) w e = nonoo_ins GN e.
+Proof. unfold spec_ins, valid_deps, spec_load. cbn [graph_of graph_now g_edge edge_now set_hash ei_deps]. apply app_nil_r. Qed.
+
+Lemma static_now_i X : same_static (GNX X) (GiX X).
+Proof. intros e. repeat split; reflexivity. Qed.
+
+Lemma newer_now_i X x i : newer_than (GNX X) (world_of X) x i -> newer_than (GiX X) (world_of X) x i.
+Proof.
+  apply newer_ext; [reflexivity|reflexivity|].
+  intros n e Hp Hph. split; [exact Hph|].
+  change (nonoo_ins (GNX X) e) with (nonoo_ins GN e). change (nonoo_ins (GiX X) e) with (nonoo_ins gi e).
+  rewrite (nonoo_inline g hid e Hfrag (Hwg n e Hp)). apply (Jgi e (Hwg n e Hp)).
+Qed.
+
+Lemma newer_i_now X x i : newer_than (GiX X) (world_of X) x i -> newer_than (GNX X) (world_of X) x i.
+Proof.
+  apply newer_ext; [reflexivity|reflexivity|].
+  intros n e Hp Hph. split; [exact Hph|].
+  change (nonoo_ins (GNX X) e) with (nonoo_ins GN e). change (nonoo_ins (GiX X) e) with (nonoo_ins gi e).
+  change (ei_phony (g_edge (GiX X) e)) with (phony e) in Hph. pose proof (Hwg n e Hp) as He.
+  rewrite (nonoo_inline g hid e Hfrag He). unfold read_ins. rewrite (phony_hid e He Hph), app_nil_r.
+  rewrite nonoo_now, (ins_now_none e (phony_none e He Hph)). apply incl_refl.
+Qed.
+
+(* fewer inputs, fewer reasons *)
+Lemma mono_now X n : must_dirty (GNX X) (world_of X) n -> must_dirty (GiX X) (world_of X) n.
+Proof.
+  apply md_transfer; [reflexivity|reflexivity|reflexivity|apply static_now_i|apply newer_now_i|].
+  intros n0 e Hp. pose proof (Hwg n0 e Hp) as He. right.
+  split; [rewrite spec_ins_nowX, (spec_ins_i X (world_of X) e He); apply (Jgi e He)|]. split.
+  - unfold spec_load. cbn [graph_of graph_now g_edge edge_now set_hash ei_deps]. discriminate.
+  - intros Hph Hnil. change (ei_ins (g_edge (GNX X) e)) with (ins0 e) in Hnil.
+    change (ei_phony (g_edge (GNX X) e)) with (phony e) in Hph.
+    cbn [graph_of inline g_edge inline_edge set_hash ei_ins].
+    assert (Hen : eins e = []).
+    { pose proof (manifest_in0 e) as Hinc. destruct (eins e) as [|x xs]; [reflexivity|].
+      specialize (Hinc x (or_introl eq_refl)). rewrite Hnil in Hinc. destruct Hinc. }
+    rewrite Hen, (phony_hid e He Hph). apply splice_nil_r.
+Qed.
+
+Lemma reach_now_i X T' n : reach (GNX X) T' n -> reach gi T' n.
+Proof.
+  intros H. induction H as [t Ht|x y Hx IH [ex [Hex Hin]]]; [apply reach_target; exact Ht|].
+  apply (reach_step gi (manifest_ins gi) T' x y IH). exists ex. split; [exact Hex|].
+  apply ins0_in_gi. exact Hin.
+Qed.
+
+Lemma reach_outs_below k n : (k < n_)%nat -> reach gi (outs k) n ->
+  In n (outs k) \/ forall e, g_producer g n = Some e -> (e < k)%nat.
+Proof.
+  intros Hk H. induction H as [t Ht|x y Hx IH [ex [Hex Hin]]]; [left; exact Ht|]. right.
+  cbn [inline g_producer] in Hex.
+  assert (Hle : (ex <= k)%nat).
+  { destruct IH as [Hin'|Hlt]; [rewrite (o_prodC k x Hin') in Hex; inversion Hex; lia|specialize (Hlt ex Hex); lia]. }
+  intros e Hpy. pose proof (edges_all_spec gi _ ex Htopo) as H. cbn beta in H.
+  specialize (H ltac:(cbn [inline g_nedges]; lia)). rewrite forallb_forall in H.
+  specialize (H y Hin). cbn [inline g_producer] in H. rewrite Hpy in H. apply Nat.ltb_lt in H. lia.
+Qed.
+
+Lemma reach_outs_T k n : needed gi T k -> reach gi (outs k) n -> In n (outs k) \/ reach gi T n.
+Proof.
+  intros [nk [Rk Hpk]] H. induction H as [t Ht|x y Hx IH [ex [Hex Hin]]]; [left; exact Ht|]. right.
+  destruct IH as [Hin'|IH].
+  - apply (reach_step gi (manifest_ins gi) T nk y Rk). exists k. split; [exact Hpk|].
+    cbn [inline g_producer] in Hex. rewrite (o_prodC k x Hin') in Hex. inversion Hex; subst ex. exact Hin.
+  - apply (reach_step gi (manifest_ins gi) T x y IH). exists ex. split; [exact Hex|exact Hin].
+Qed.
+
+Lemma hash_i k : (k <= n_)%nat -> h_hash (istk k) = h_hash st0.
+Proof. intros Hk. apply (build_inv1 cmd gi Hwfi Htopo st0 pi HGi k Hk). Qed.
+
+(* everything the statement [k] needs, except [k] itself, is clean when its turn comes *)
+Lemma up_clean_i k : (k < n_)%nat -> needed gi T k ->
+  forall e, neededE (GiX (istk k)) (outs k) e -> e <> k ->
+  forall o, In o (outs e) -> ~ must_dirty (GiX (istk k)) (world_of (istk k)) o.
+Proof.
+  intros Hk Hnk e [n [Rn Hp]] Hne o Ho.
+  apply (reach_G gi (istk k) (outs k) n) in Rn. cbn [graph_of inline g_producer] in Hp.
+  assert (Hno : ~ In n (outs k)).
+  { intros Hin. rewrite (o_prodC k n Hin) in Hp. inversion Hp; subst. apply Hne. reflexivity. }
+  assert (Hlt : (e < k)%nat).
+  { destruct (reach_outs_below k n Hk Rn) as [Hc|H]; [contradiction|apply (H e Hp)]. }
+  assert (Hne' : needed gi T e).
+  { exists n. split; [|exact Hp]. destruct (reach_outs_T k n Hnk Rn) as [Hc|H]; [contradiction|exact H]. }
+  rewrite (G_hash_eq gi st0 (istk k) (hash_i k ltac:(lia))).
+  apply (build_inv_c02 cmd gi Hwfi Hwg Hfi Htopo st0 T si pi HGi Hscan_i k (nip_inline Hnip) ltac:(lia) e Hlt Hne' o Ho).
+Qed.
+
+Lemma step_dirty_eq k : (k < n_)%nat -> stk k = istk k ->
+  want_start p0 k = true -> phony k = false ->
+  dirty_now_d g s0 (dstk k) k = dirty_now gi (istk k) k.
+Proof.
+  intros Hk Heq Hw Hph. set (X := istk k) in *.
+  assert (Hwi : want_start pi k = true) by (rewrite <- (want_eq Hord Hnip ds0 T s0 p0 si pi HG0 Hscan Hscan_i k); exact Hw).
+  assert (Hnk : needed gi T k) by (apply (want_sound gi Hwfi Hwg Hfi st0 T si pi Hscan_i k Hwi)).
+  pose proof (up_clean_i k Hk Hnk) as Hup. fold X in Hup.
+  assert (Hwn : wf_spec GN) by (apply wf_spec_now; exact Hwf).
+  assert (Hfn : frag_AB GN = true) by (apply frag_AB_now; exact HfD).
+  (* clean for the inlined manifest => clean for ninja's in-memory manifest *)
+  assert (Hnow_false : (forall o, In o (outs k) -> ~ must_dirty (GiX X) (world_of X) o) ->
+                       dirty_now GN X k = false).
+  { intros Hck. apply (dirty_now_false GN X k Hwn Hwg Hfn topo_now).
+    intros e [n [Rn Hp]] o Ho Hmd. apply mono_now in Hmd.
+    destruct (Nat.eq_dec e k) as [->|Hne]; [apply (Hck o Ho Hmd)|].
+    apply (Hup e); [|exact Hne|exact Ho|exact Hmd].
+    exists n. split; [|exact Hp]. apply (reach_G gi X (outs k) n). apply (reach_now_i X (outs k) n Rn). }
+  unfold dirty_now_d. rewrite Heq. fold X.
+  destruct (dirty_now gi X k) eqn:HI.
+  - (* dirty for the inlined manifest *)
+    apply want_start_iff in Hw.
+    destruct (scan_want_soundD G0 W0 (Gd_wf ds0) (Gd_wg ds0) (Gd_frag ds0) T s0 p0 Hscan k Hw) as [_ [Hd [_ Hmd]]].
+    destruct (deps_kind_cases g k HfD Hk) as [Hdk|Hdk].
+    + (* no deps binding: the inputs are the same *)
+      assert (Hmiss : es_deps_missing (st_edge s0 k) = false).
+      { destruct AF as [_ [HR _]]. destruct (HR k Hd) as [_ [_ [_ [_ [_ H6]]]]].
+        destruct (es_deps_missing (st_edge s0 k)); [|reflexivity].
+        rewrite (spec_load_none G0 W0 k Hdk) in H6. destruct (proj2 H6 eq_refl); discriminate. }
+      rewrite Hmiss. cbn [orb]. destruct (dirty_now GN X k) eqn:HD; [reflexivity|exfalso].
+      pose proof (dirty_now_spec GN Hwn Hwg Hfn X k HD) as Hcn.
+      assert (EJ : nonoo_ins GN k = read_ins g hid k).
+      { rewrite nonoo_now, (ins_now_none k Hdk). unfold read_ins. rewrite (hid_none k Hk Hdk), app_nil_r. reflexivity. }
+      assert (HIf : dirty_now gi X k = false); [|congruence].
+      apply (dirty_now_false gi X k Hwfi Hwg Hfi Htopo).
+      intros e Hne o Ho Hmdo. destruct (Nat.eq_dec e k) as [->|Hnek]; [|apply (Hup e Hne Hnek o Ho Hmdo)].
+      destruct (must_dirty_out_inv (GiX X) (world_of X) o k Hmdo (o_prodC k o Ho))
+        as [[i [Hi Hdi]]|[[Hc _]|[[_ [o' [Ho' Hr]]]|Hf]]].
+      * rewrite (spec_ins_i X (world_of X) k Hk) in Hi.
+        destruct (g_producer g i) as [u|] eqn:Hpi.
+        -- assert (Hnu : neededE (GiX X) (outs k) u).
+           { exists i. split; [|exact Hpi]. apply (reach_step (GiX X) _ (outs k) o i (reach_target _ _ _ o Ho)).
+             exists k. split; [exact (o_prodC k o Ho)|].
+             rewrite <- (nonoo_inline g hid k Hfrag Hk) in Hi. apply (nonoo_incl gi k). exact Hi. }
+           assert (Hlt : (u < k)%nat) by (apply (read_below k i u Hk Hi Hpi)).
+           apply (Hup u Hnu ltac:(lia) i (p_outC i u Hpi) Hdi).
+        -- apply (Hcn o Ho). apply (md_input (GNX X) (world_of X) o k i (o_prodC k o Ho)); [rewrite spec_ins_nowX, EJ; exact Hi|].
+           apply md_leaf; [exact Hpi|apply (must_dirty_leaf_inv (GiX X) (world_of X) i Hdi Hpi)].
+      * change (ei_phony (g_edge (GiX X) k)) with (phony k) in Hc. congruence.
+      * apply (Hcn o' Ho'). apply (md_self (GNX X) (world_of X) o' k o' (o_prodC k o' Ho') Hph Ho').
+        unfold out_reason, base_reason, time_reason, used_restat in *.
+        assert (HN : forall x, (exists i, In i (spec_ins (GiX X) (world_of X) k) /\ newer_than (GiX X) (world_of X) x i) ->
+                               exists i, In i (spec_ins (GNX X) (world_of X) k) /\ newer_than (GNX X) (world_of X) x i).
+        { intros x [i [Hi Hn]]. exists i. rewrite (spec_ins_i X (world_of X) k Hk) in Hi.
+          split; [rewrite spec_ins_nowX, EJ; exact Hi|apply newer_i_now; exact Hn]. }
+        destruct Hr as [Hb|[[Hu Hn]|Ht]]; [left; exact Hb|right; left; split; [exact Hu|apply HN; exact Hn]|].
+        right; right. destruct (w_blog (world_of X) o') as [[h m]|]; [apply HN; exact Ht|exact Ht].
+      * unfold spec_load in Hf. cbn [graph_of inline g_edge inline_edge set_hash ei_deps] in Hf. discriminate.
+    + (* a deps statement reads from no restat statement: PERSIST *)
+      assert (Hws : want_start p0 k = true) by (apply want_start_iff; exact Hw).
+      destruct (persist k Hk Hd) as [HA _]; [right; split; [unfold wantd; rewrite Hw; discriminate|intros _; exact Hws]|exact Hmd|apply (untainted_deps k Hnr Hk Hdk)|].
+      specialize (HA Hph). unfold dirty_now_d in HA. rewrite Heq in HA. exact HA.
+  - (* clean for the inlined manifest *)
+    pose proof (dirty_now_spec gi Hwfi Hwg Hfi X k HI) as Hci.
+    rewrite (Hnow_false Hci), orb_false_r.
+    destruct (es_deps_missing (st_edge s0 k)) eqn:Hmiss; [exfalso|reflexivity].
+    apply want_start_iff in Hw.
+    destruct (scan_want_soundD G0 W0 (Gd_wf ds0) (Gd_wg ds0) (Gd_frag ds0) T s0 p0 Hscan k Hw) as [_ [Hd _]].
+    destruct AF as [_ [HR _]]. destruct (HR k Hd) as [_ [_ [_ [_ [_ H6]]]]].
+    pose proof (proj2 H6 Hmiss) as Hfail.
+    destruct (load_cases ds0 k HG0 Hk) as [[_ [_ [o0 [Ho0 Hdo]]]]|[l [Hl _]]]; [|congruence].
+    apply (Hci o0 Ho0). apply (md_self (GiX X) (world_of X) o0 k o0 (o_prodC k o0 Ho0) Hph Ho0).
+    left. left. cbn [world_of w_mtime]. unfold mtime_of, X. rewrite <- Heq.
+    rewrite (proj1 (outs_before k k o0 ltac:(lia) (le_n k) Ho0)), Hdo. reflexivity.
+Qed.
+
+(* the two builds run the same commands and reach the same state *)
+Theorem equiv_upto k : (k <= n_)%nat -> stk k = istk k.
+Proof.
+  induction k as [|k IH]; intros Hk; [reflexivity|].
+  specialize (IH ltac:(lia)).
+  rewrite dbuild_upto_S, build_upto_S. unfold dbuild_step, build_step.
+  rewrite <- (want_eq Hord Hnip ds0 T s0 p0 si pi HG0 Hscan Hscan_i k).
+  change (ei_phony (g_edge gi k)) with (phony k).
+  destruct (want_start p0 k) eqn:Hw; [|exact IH].
+  destruct (phony k) eqn:Hph; [exact IH|]. cbn [negb andb].
+  rewrite (step_dirty_eq k ltac:(lia) IH Hw Hph).
+  destruct (dirty_now gi (istk k) k); [|exact IH].
+  rewrite (drun_edge_h (dstk k) k ltac:(lia)), IH. reflexivity.
+Qed.
+
+End EquivBuild.
+
 End PartC.
+
+(* ---- consequences for one build *)
+Lemma untainted_deps e : no_restat_upstream_of_deps g hid = true -> (e < g_nedges g)%nat ->
+  ei_deps (g_edge g e) = DepsLog -> reads_tainted g hid e = false.
+Proof.
+  intros Hn He Hd. pose proof (edges_all_spec g _ e Hn He) as H. cbn beta in H.
+  rewrite Hd in H. cbn [is_deps_log negb orb] in H. apply negb_true_iff in H. exact H.
+Qed.
+
+(* a real statement the targets need, some output of which must be remade, and which reads from no
+   restat statement, is run by the build *)
+Lemma wanted_untainted_runs ds T ds' e :
+  GoodD ds -> (e < g_nedges g)%nat -> phony e = false -> reads_tainted g hid e = false ->
+  (exists n, reach g T n /\ g_producer g n = Some e) ->
+  (exists o, In o (outs e) /\ must_dirty (Gd ds) (Wd ds) o) ->
+  dbuild cmd g hid ds T = Some ds' ->
+  In e (ran_since (d_h ds) (d_h ds')).
+Proof.
+  intros HG He Hph Hnr [n [Rn Hp]] Hmd Hb. unfold dbuild in Hb.
+  destruct (dscan g ds T) as [c|m d|e'| |s p] eqn:Hs; try discriminate. inversion Hb; subst ds'. clear Hb.
+  destruct (dbuild_trace ds s p (g_nedges g)) as [l [Hl Hin]].
+  rewrite (ran_since_app l _ _ Hl). apply Hin.
+  pose proof (reach_manifest_S ds T s p Hs n Rn) as RSn.
+  destruct (scan_want_completeD (Gd ds) (Wd ds) (Gd_wf ds) (Gd_wg ds) (Gd_frag ds) T s p Hs e) as [Hw _].
+  - exists n. split; [exact RSn|exact Hp].
+  - exact Hmd.
+  - intros [Hx _]. cbn [graph_of g_edge set_hash ei_phony] in Hx. congruence.
+  - assert (Hws : want_start p e = true) by (apply want_start_iff; exact Hw).
+    split; [exact He|]. split; [exact Hws|]. split; [exact Hph|].
+    destruct (reach_finalD (Gd ds) (Wd ds) (Gd_wf ds) (Gd_wg ds) (Gd_frag ds) T s p Hs n RSn) as [Fn _].
+    unfold node_final in Fn. change (g_producer (Gd ds) n) with (g_producer g n) in Fn. rewrite Hp in Fn.
+    apply (persist ds T s p HG Hs e He Fn); [|exact Hmd|exact Hnr|exact Hph].
+    right. split; [unfold wantd; rewrite Hw; discriminate|intros _; exact Hws].
+Qed.
+
+(* an output of a deps statement whose hidden read [i] is newer than its log entry, or missing,
+   must be remade *)
+Lemma hidden_read_dirties ds e i o :
+  GoodD ds -> (e < g_nedges g)%nat -> ei_deps (g_edge g e) = DepsLog -> In i (hid e) -> In o (outs e) ->
+  is_source g i = true ->
+  (h_disk (d_h ds) i = None \/
+   forall h m, h_blog (d_h ds) o = Some (h, m) -> m < mtime_of (d_h ds) i) ->
+  must_dirty (Gd ds) (Wd ds) o.
+Proof.
+  intros HG He Hdk Hi Ho Hsrc Hcase.
+  assert (Hpi : g_producer g i = None) by (unfold is_source in Hsrc; destruct (g_producer g i); [discriminate|reflexivity]).
+  destruct (frag_D_edge g e HfD He) as [_ [_ Hlog]]. destruct (Hlog Hdk) as [Hph [Hne _]].
+  destruct (spec_load (Gd ds) (Wd ds) e) as [| |l] eqn:Hl.
+  - apply (md_deps (Gd ds) (Wd ds) o e); [apply o_prod_d; exact Ho|exact Hl].
+  - exfalso. apply (spec_load_not_err (Gd ds) (Wd ds) (Gd_frag ds) e He Hl).
+  - assert (Hlh : l = hid e).
+    { unfold spec_load in Hl. cbn [graph_of g_edge set_hash ei_deps ei_outs] in Hl. rewrite Hdk in Hl.
+      destruct (outs e) as [|o0 os] eqn:Hos; [discriminate|]. cbn [world_of_d w_dlog] in Hl.
+      destruct (d_deps ds o0) as [[dm nodes]|] eqn:Hr; [|discriminate].
+      destruct (Z.gtb _ _); [discriminate|]. inversion Hl; subst nodes.
+      destruct (proj1 (proj2 HG) o0 dm l Hr) as [_ [e' [Ho' [_ Hh]]]].
+      assert (e' = e); [|subst; reflexivity].
+      pose proof (o_prod_d e' o0 Ho') as H1. rewrite (o_prod_d e o0) in H1 by (rewrite Hos; left; reflexivity). congruence. }
+    assert (Hsi : In i (spec_ins (Gd ds) (Wd ds) e)).
+    { unfold spec_ins, valid_deps. rewrite Hl, Hlh. apply in_or_app. right; exact Hi. }
+    destruct Hcase as [Hmiss|Hnew].
+    + apply (md_input (Gd ds) (Wd ds) o e i (o_prod_d e o Ho) Hsi).
+      apply md_leaf; [exact Hpi|]. cbn [world_of_d w_mtime]. unfold mtime_of. rewrite Hmiss. reflexivity.
+    + apply (md_self (Gd ds) (Wd ds) o e o (o_prod_d e o Ho) Hph Ho).
+      destruct (h_disk (d_h ds) o) as [[mo c]|] eqn:Hdo.
+      2:{ left. left. cbn [world_of_d w_mtime]. unfold mtime_of. rewrite Hdo. reflexivity. }
+      destruct HG as [[[_ [B [_ [_ E]]]] _] _].
+      destruct (h_blog (d_h ds) o) as [[h m]|] eqn:Hbo.
+      2:{ exfalso. apply (E o e (o_prod_d e o Ho) Hph); [rewrite Hdo; discriminate|exact Hbo]. }
+      right. right. cbn [world_of_d w_blog]. rewrite Hbo. exists i. split; [exact Hsi|].
+      specialize (Hnew h m eq_refl). unfold mtime_of in Hnew.
+      destruct (h_disk (d_h ds) i) as [[mi ci]|] eqn:Hdi.
+      * apply nt_file; cbn [world_of_d w_mtime]; unfold mtime_of; rewrite Hdi; [|exact Hnew].
+        specialize (B i mi ci Hdi). lia.
+      * apply nt_missing; [cbn [world_of_d w_mtime]; unfold mtime_of; rewrite Hdi; reflexivity|exact Hnew].
+Qed.
+
+(* (ii) a changed hidden read (an edited source) re-runs the statement in the next build *)
+Theorem C10_changed_dep_reruns_proof ds i c T ds' e :
+  GoodD ds -> no_restat_upstream_of_deps g hid = true ->
+  (e < g_nedges g)%nat -> ei_deps (g_edge g e) = DepsLog -> In i (hid e) -> is_source g i = true ->
+  (exists n, reach g T n /\ g_producer g n = Some e) ->
+  dbuild cmd g hid (dapply_step cmd g hid ds (Edit i c)) T = Some ds' ->
+  In e (ran_since (d_h (dapply_step cmd g hid ds (Edit i c))) (d_h ds')).
+Proof.
+  intros HG Hnr He Hdk Hi Hsrc Hn Hb.
+  pose proof (goodd_edit ds i c HG Hsrc) as HG1. cbn [dapply_step] in *.
+  set (ds1 := dlift (fun st => write_file st i c) ds) in *.
+  destruct (frag_D_edge g e HfD He) as [_ [_ Hlog]]. destruct (Hlog Hdk) as [Hph [Hne _]].
+  destruct (outs e) as [|o os] eqn:Hos; [congruence|].
+  assert (Ho : In o (outs e)) by (rewrite Hos; left; reflexivity).
+  apply (wanted_untainted_runs ds1 T ds' e HG1 He Hph (untainted_deps e Hnr He Hdk) Hn); [|exact Hb].
+  exists o. split; [exact Ho|].
+  apply (hidden_read_dirties ds1 e i o HG1 He Hdk Hi Ho Hsrc). right.
+  intros h m Hbl. unfold ds1, mtime_of. cbn [dlift d_h write_file h_disk h_blog] in *. rewrite upd_same.
+  destruct HG as [[[_ [_ [C _]]] _] _]. specialize (C o h m Hbl). lia.
+Qed.
+
+(* (iii) a missing hidden read that has no rule makes the statement dirty; it is not an error *)
+Theorem C10_missing_dep_dirty_proof ds T e i :
+  GoodD ds -> no_restat_upstream_of_deps g hid = true ->
+  (e < g_nedges g)%nat -> ei_deps (g_edge g e) = DepsLog -> In i (hid e) -> is_source g i = true ->
+  h_disk (d_h ds) i = None -> g_byloader g i = true ->
+  (exists n, reach g T n /\ g_producer g n = Some e) ->
+  (forall d, dscan g ds T <> ScanMissing i d) /\
+  (forall ds', dbuild cmd g hid ds T = Some ds' -> In e (ran_since (d_h ds) (d_h ds'))).
+Proof.
+  intros HG Hnr He Hdk Hi Hsrc Hmiss Hbl Hn. split.
+  - intros d H. unfold dscan, scan in H.
+    pose proof (scan_missing_byloader (Gd ds) (Wd ds) T _ _ i d H) as Hc.
+    cbn [graph_of g_byloader] in Hc. congruence.
+  - intros ds' Hb.
+    destruct (frag_D_edge g e HfD He) as [_ [_ Hlog]]. destruct (Hlog Hdk) as [Hph [Hne _]].
+    destruct (outs e) as [|o os] eqn:Hos; [congruence|].
+    assert (Ho : In o (outs e)) by (rewrite Hos; left; reflexivity).
+    apply (wanted_untainted_runs ds T ds' e HG He Hph (untainted_deps e Hnr He Hdk) Hn); [|exact Hb].
+    exists o. split; [exact Ho|].
+    apply (hidden_read_dirties ds e i o HG He Hdk Hi Ho Hsrc). left; exact Hmiss.
+Qed.
+
+End PartA.
